@@ -1561,3 +1561,1859 @@ Proof.
   destruct (create_candidates jc_protos (Some 72)) as [out|k] eqn:E; vm_compute in E; [|discriminate E].
   inversion E as [E']. eexists. split; [reflexivity|]. vm_compute. reflexivity.
 Qed.
+
+(* ====================================================================================== *)
+(* second deepening pass.  Three self-contained developments, each in its own module       *)
+(* (names inside are local to the module; Theorems.v refers to Cover.x, Kinds.x)           *)
+(* ====================================================================================== *)
+Module Cover.
+(* C05 - the final coverage assertion of create_candidates_from_protoclusters never fires:
+   every supplied protocluster (by id) is a member of one of the candidates formed by formation_body,
+   hence the number of distinct members equals the number of protoclusters. *)
+
+(* ---------- membership by id: small facts ---------- *)
+Lemma inS_dec : forall i g, inS i g \/ ~ inS i g.
+Proof.
+  intros i g. unfold inS. destruct (in_dec Z.eq_dec i (map pid g)) as [H|H]; [left; exact H|right; exact H].
+Qed.
+
+Lemma inS_app : forall i a b, inS i (a ++ b) <-> inS i a \/ inS i b.
+Proof. intros i a b. unfold inS. rewrite map_app. apply in_app_iff. Qed.
+
+Lemma inS_In : forall x g, In x g -> inS (pid x) g.
+Proof. intros x g H. unfold inS. apply in_map. exact H. Qed.
+
+Lemma inS_witness : forall i g, inS i g -> exists x, In x g /\ pid x = i.
+Proof.
+  intros i g H. unfold inS in H. apply in_map_iff in H. destruct H as [x [Hx Hin]]. exists x. split; assumption.
+Qed.
+
+Lemma inS_diff_intro : forall i a b, inS i a -> ~ inS i b -> inS i (diff a b).
+Proof.
+  intros i a b Ha Hb. apply inS_witness in Ha. destruct Ha as [x [Hx He]]. subst i.
+  apply inS_In. unfold diff. apply filter_In. split; [exact Hx|].
+  destruct (pmem x b) eqn:E; [|reflexivity]. exfalso. apply Hb. apply pmem_inS. exact E.
+Qed.
+
+Lemma inS_ordered_list : forall i g, inS i (ordered_list g) <-> inS i g.
+Proof. intros i g. unfold ordered_list. rewrite !inS_sort_by. tauto. Qed.
+
+Lemma inS_concat_any : forall i L, inS i (concat L) -> inAny i L.
+Proof.
+  intros i. induction L as [|g r IH]; cbn [concat]; intro H; [destruct H|].
+  apply inS_app in H. apply inAny_cons. destruct H as [H|H]; [left; exact H|right; exact (IH H)].
+Qed.
+
+Lemma inAny_concat : forall i L, inAny i L -> inS i (concat L).
+Proof.
+  intros i. induction L as [|g r IH]; intro H; [apply inAny_nil in H; destruct H|].
+  apply inAny_cons in H. cbn [concat]. apply inS_app. destruct H as [H|H]; [left; exact H|right; exact (IH H)].
+Qed.
+
+Lemma inS_set_add : forall i x l, inS i (set_add x l) <-> i = pid x \/ inS i l.
+Proof.
+  intros i x l. unfold set_add. destruct (pmem x l) eqn:E.
+  - split; [intro H; right; exact H|]. intros [H|H]; [|exact H]. subst i. apply pmem_inS. exact E.
+  - rewrite inS_app. unfold inS at 2. cbn [map In]. split.
+    + intros [H|[H|[]]]; [right; exact H|left; symmetry; exact H].
+    + intros [H|H]; [right; left; symmetry; exact H|left; exact H].
+Qed.
+
+Lemma is_empty_false : forall A (l : list A), is_empty l = false -> exists x, In x l.
+Proof. intros A l H. destruct l as [|x r]; [discriminate H|]. exists x. left. reflexivity. Qed.
+
+Lemma is_empty_inS : forall (l : list proto) i, is_empty l = true -> inS i l -> False.
+Proof. intros l i H Hi. apply is_empty_true in H. subst l. apply inS_nil in Hi. exact Hi. Qed.
+
+(* a set with at most one element: all ids are equal *)
+Lemma size_le1 : forall l i j, set_size l <= 1 -> inS i l -> inS j l -> i = j.
+Proof.
+  intros l i j Hs Hi Hj. unfold set_size, zlen in Hs.
+  apply (proj2 (inS_iter i l)) in Hi. apply (proj2 (inS_iter j l)) in Hj.
+  destruct (iter l) as [|a [|b r]].
+  - apply inS_nil in Hi. destruct Hi.
+  - unfold inS in Hi, Hj. cbn [map In] in Hi, Hj.
+    destruct Hi as [Hi|[]]. destruct Hj as [Hj|[]]. rewrite <- Hi, <- Hj. reflexivity.
+  - exfalso. clear Hi Hj. cbn [length] in Hs. lia.
+Qed.
+
+(* ---------- 1. _find_hybrids loses no protocluster ---------- *)
+Lemma find_hybrids_covers : forall clusters w groups un,
+  find_hybrids clusters w = Ok (groups, un) ->
+  forall i, inS i clusters -> inAny i groups \/ inS i un.
+Proof.
+  intros clusters w groups un H i Hi. unfold find_hybrids in H. cbv zeta in H.
+  match type of H with bind ?e _ = _ => destruct e as [extended|k] eqn:EM end; cbn [bind] in H; [|discriminate H].
+  inversion H; subst; clear H.
+  match type of EM with mapM _ (merge_sets ?G) = _ => set (PG := G) in * end.
+  assert (Hext : forall j, inAny j extended -> inAny j (map ordered_list extended)).
+  { intros j [e [He Hje]]. exists (ordered_list e). split; [apply in_map; exact He|apply inS_ordered_list; exact Hje]. }
+  destruct (inS_dec i (concat PG)) as [HP|HP].
+  - left. apply Hext. apply inS_concat_any in HP.
+    pose proof (merge_sets_components PG) as C. cbv zeta in C. destruct C as [HU _].
+    apply (proj2 (HU i)) in HP. destruct HP as [m [Hm Him]].
+    destruct (mapM_In_fwd _ _ _ _ _ EM m Hm) as [e [He Hx]].
+    destruct (hybrid_extend_spec _ _ _ _ Hx) as [core [extra [_ [Er _]]]].
+    exists e. split; [exact He|]. subst e. apply inS_app. left. exact Him.
+  - destruct (inS_dec i (concat extended)) as [HE|HE].
+    + left. apply Hext. apply inS_concat_any. exact HE.
+    + right. apply inS_ordered_set. apply inS_diff_intro; [|exact HE]. apply inS_diff_intro; [exact Hi|exact HP].
+Qed.
+
+(* ---------- 2. build_candidates: what is in the table stays covered, every group gets covered ---------- *)
+Definition cov (i : Z) (t : table) : Prop := exists c, In c (tvalues t) /\ inS i (cmem c).
+
+Lemma tset_new : forall k c t, In c (tvalues (tset k c t)).
+Proof.
+  intros k c. unfold tvalues. induction t as [|[k' c'] r IH]; cbn [tset map snd In].
+  - left. reflexivity.
+  - destruct (key_eqb k k'); cbn [map snd In]; [left; reflexivity|right; exact IH].
+Qed.
+
+Lemma tset_keep : forall k c t x, In x (tvalues t) -> In x (tvalues (tset k c t)) \/ tget k t = Some x.
+Proof.
+  intros k c. unfold tvalues. induction t as [|[k' c'] r IH]; intros x H; cbn [map snd In] in H; [destruct H|].
+  cbn [tset tget]. destruct (key_eqb k k'); cbn [map snd In].
+  - destruct H as [H|H]; [right; rewrite H; reflexivity|left; right; exact H].
+  - destruct H as [H|H]; [left; left; exact H|]. destruct (IH x H) as [A|A]; [left; right; exact A|right; exact A].
+Qed.
+
+Lemma build_go_covers : forall w kind groups existing singles e s,
+  build_go w kind groups existing singles = Ok (e, s) ->
+  (forall i, cov i existing -> cov i e) /\ (forall g i, In g groups -> inS i g -> cov i e).
+Proof.
+  intros w kind. induction groups as [|group rest IH]; intros existing singles e s H; cbn [build_go] in H.
+  - inversion H; subst. split; [intros i Hi; exact Hi|intros g i []].
+  - destruct (negb ((kind =? K_SINGLE) || (1 <? zlen group))); [discriminate H|].
+    destruct (mk_cand w kind (ordered_list group)) as [candidate|k] eqn:Ec; cbn [bind] in H; [|discriminate H].
+    destruct (mk_cand_wfc _ _ _ _ Ec) as [_ [Bc _]].
+    assert (Step : forall existing' singles', build_go w kind rest existing' singles' = Ok (e, s) ->
+              (forall i, cov i existing -> cov i existing') -> (forall i, inS i group -> cov i existing') ->
+              (forall i, cov i existing -> cov i e) /\ (forall g i, In g (group :: rest) -> inS i g -> cov i e)).
+    { intros existing' singles' H' K1 K2. destruct (IH _ _ _ _ H') as [A B]. split.
+      - intros i Hi. apply A. apply K1. exact Hi.
+      - intros g i [Hg|Hg] Hi; [subst g; apply A; apply K2; exact Hi|exact (B g i Hg Hi)]. }
+    destruct (tget (ckey candidate) existing) as [ex|] eqn:Et.
+    + destruct (is_empty (iter (diff group (iter (cmem ex))))) eqn:Eex.
+      * apply (Step _ _ H); [intros i Hi; exact Hi|].
+        intros i Hi. exists ex. split; [exact (tget_in _ _ _ Et)|].
+        destruct (inS_dec i (iter (cmem ex))) as [A|A]; [apply inS_iter; exact A|]. exfalso.
+        apply (is_empty_inS _ i Eex). apply inS_iter. apply inS_diff_intro; assumption.
+      * destruct (mk_cand w (ckind ex) (ordered_list (iter (cmem ex) ++ iter (diff group (iter (cmem ex))))))
+          as [replacement|k] eqn:Er; cbn [bind] in H; [|discriminate H].
+        destruct (mk_cand_wfc _ _ _ _ Er) as [_ [Br _]].
+        apply (Step _ _ H).
+        -- intros i [c [Hc Hic]]. destruct (tset_keep (ckey candidate) replacement existing c Hc) as [A|A].
+           ++ exists c. split; [exact A|exact Hic].
+           ++ rewrite Et in A. inversion A; subst c. exists replacement. split; [apply tset_new|].
+              rewrite Br. apply inS_ordered_list. apply inS_app. left. apply inS_iter. exact Hic.
+        -- intros i Hi. exists replacement. split; [apply tset_new|].
+           rewrite Br. apply inS_ordered_list. apply inS_app.
+           destruct (inS_dec i (iter (cmem ex))) as [A|A]; [left; exact A|right].
+           apply inS_iter. apply inS_diff_intro; assumption.
+    + apply (Step _ _ H).
+      * intros i [c [Hc Hic]]. destruct (tset_keep (ckey candidate) candidate existing c Hc) as [A|A].
+        -- exists c. split; [exact A|exact Hic].
+        -- rewrite Et in A. discriminate A.
+      * intros i Hi. exists candidate. split; [apply tset_new|]. rewrite Bc. apply inS_ordered_list. exact Hi.
+Qed.
+
+Lemma build_candidates_covers : forall w kind groups existing singles cs e s,
+  build_candidates w kind groups existing singles = Ok (cs, e, s) ->
+  cs = sort_by lt_cc (tvalues e) /\
+  (forall i, cov i existing -> cov i e) /\ (forall g i, In g groups -> inS i g -> cov i e).
+Proof.
+  intros w kind groups existing singles cs e s H. unfold build_candidates in H.
+  destruct (build_go w kind groups existing singles) as [[e0 s0]|k] eqn:Eb; cbn [bind] in H; [|discriminate H].
+  inversion H; subst; clear H. split; [reflexivity|]. exact (build_go_covers _ _ _ _ _ _ _ Eb).
+Qed.
+
+(* ---------- 3. _find_interleaved ---------- *)
+Lemma cross_walk_inv : forall core n l st cg found, cross_walk core n l st = (cg, found) ->
+  (forall i, inS i (snd st) -> inS i (fst st)) ->
+  (forall i, inS i found -> inS i cg) /\ (forall i, inS i (fst st) -> inS i cg).
+Proof.
+  intros core n. induction l as [|c r IH]; intros st cg found H Hinv; cbn [cross_walk] in H.
+  - subst st. cbn [fst snd] in *. split; [exact Hinv|intros i Hi; exact Hi].
+  - destruct st as [cg0 found0]. cbn [fst snd] in *.
+    destruct (negb (set_size found0 <? n)); [inversion H; subst; split; [exact Hinv|intros i Hi; exact Hi]|].
+    destruct (negb (overlap (pcore c) core)); [inversion H; subst; split; [exact Hinv|intros i Hi; exact Hi]|].
+    destruct (IH _ _ _ H) as [A B].
+    + cbn [fst snd]. intros i Hi. apply inS_set_add in Hi. apply inS_set_add.
+      destruct Hi as [Hi|Hi]; [left; exact Hi|right; exact (Hinv i Hi)].
+    + split; [exact A|]. intros i Hi. apply B. cbn [fst]. apply inS_set_add. right. exact Hi.
+Qed.
+
+Lemma find_cross_covers : forall w cc unassigned groups found groups',
+  find_cross_origin_interleaved w cc unassigned groups = Ok (found, groups') ->
+  (forall g, In g groups -> In g groups') /\
+  (forall i, inS i found -> inAny i groups' \/ exists ck, In ck cc /\ inS i (cmem (fst ck))).
+Proof.
+  intros w cc unassigned groups found groups' H. unfold find_cross_origin_interleaved in H.
+  assert (Triv : forall G : list (list proto), (forall g, In g G -> In g G) /\
+            (forall i, inS i [] -> inAny i G \/ exists ck : cand * loc, In ck cc /\ inS i (cmem (fst ck)))).
+  { intro G. split; [intros g Hg; exact Hg|]. intros i Hi. apply inS_nil in Hi. destruct Hi. }
+  destruct (is_empty unassigned || is_empty cc); [inversion H; subst; apply Triv|].
+  destruct (is_empty (filter (fun ck : cand * loc => cand_core_crosses (snd ck)) cc)); [inversion H; subst; apply Triv|].
+  destruct (connect_locations (map snd (filter (fun ck : cand * loc => cand_core_crosses (snd ck)) cc)) w) as [core|k];
+    cbn [bind] in H; [|discriminate H].
+  cbv zeta in H.
+  set (crossing := filter (fun ck : cand * loc => cand_core_crosses (snd ck)) cc) in *.
+  set (cg0 := if is_empty (cross_core_group crossing) then cross_all_group crossing else cross_core_group crossing) in *.
+  assert (Hcg0 : forall x, In x cg0 -> exists ck, In ck crossing /\ In x (cmem (fst ck))).
+  { intros x Hx. unfold cg0 in Hx. destruct (is_empty (cross_core_group crossing));
+      [exact (cross_all_group_In _ _ Hx)|exact (cross_core_group_In _ _ Hx)]. }
+  destruct (is_empty cg0) eqn:Eemp; [discriminate H|].
+  destruct (cross_walk core (zlen unassigned) (rev (tl unassigned)) (cg0, [])) as [cg1 f1] eqn:E1.
+  destruct (cross_walk core (zlen unassigned) unassigned (cg1, f1)) as [cg found2] eqn:E2.
+  destruct (cross_walk_inv _ _ _ _ _ _ E1) as [I1 M1].
+  { cbn [fst snd]. intros i Hi. apply inS_nil in Hi. destruct Hi. }
+  destruct (cross_walk_inv _ _ _ _ _ _ E2) as [I2 M2]; [exact I1|]. cbn [fst snd] in M1, M2.
+  destruct (existsb (fun ck : cand * loc => set_eqb cg (cmem (fst ck))) cc); [inversion H; subst; apply Triv|].
+  destruct (1 <? set_size cg) eqn:Es; inversion H; subst; clear H.
+  - split; [intros g Hg; apply in_or_app; left; exact Hg|].
+    intros i Hi. left. exists cg. split; [apply in_or_app; right; left; reflexivity|exact (I2 i Hi)].
+  - split; [intros g Hg; exact Hg|]. intros i Hi. right.
+    destruct (is_empty_false _ _ Eemp) as [x0 Hx0]. destruct (Hcg0 x0 Hx0) as [ck [Hck Hxm]].
+    exists ck. split; [unfold crossing in Hck; apply filter_In in Hck; exact (proj1 Hck)|].
+    assert (He : pid x0 = i).
+    { apply (size_le1 cg); [apply Z.ltb_ge in Es; exact Es| |exact (I2 i Hi)].
+      apply M2. apply M1. apply inS_In. exact Hx0. }
+    rewrite <- He. apply inS_In. exact Hxm.
+Qed.
+
+Lemma find_interleaved_covers : forall clusters cands w groups un,
+  find_interleaved clusters cands w = Ok (groups, un) ->
+  forall i, inS i clusters ->
+    inAny i groups \/ inS i un \/ exists c, In c cands /\ inS i (cmem c).
+Proof.
+  intros clusters cands w groups un H i Hi. unfold find_interleaved in H. cbv zeta in H.
+  destruct (with_cores w cands) as [cc|k] eqn:Ecc; cbn [bind] in H; [|discriminate H].
+  match type of H with bind ?e _ = _ => destruct e as [[found3 groups3]|k] eqn:EF end; cbn [bind] in H; [|discriminate H].
+  inversion H; subst; clear H.
+  destruct (find_cross_covers _ _ _ _ _ _ EF) as [Hsub Hf3].
+  pose proof (merge_sets_components groups3) as C. cbv zeta in C. destruct C as [HU _].
+  match goal with |- context [diff clusters ?F] => destruct (inS_dec i F) as [HF|HF] end.
+  - apply inS_app in HF. destruct HF as [HF|HF]; [apply inS_app in HF; destruct HF as [HF|HF]|].
+    + left. apply HU. apply inS_concat_any in HF. destruct HF as [g [Hg Hig]]. exists g. split; [|exact Hig].
+      apply Hsub. apply in_or_app. left. apply in_or_app. right. exact Hg.
+    + left. apply HU. apply inS_witness in HF. destruct HF as [x [Hx Hxi]].
+      apply in_map_iff in Hx. destruct Hx as [h [Hh Hin]].
+      exists (cmem (fst (fst h)) ++ [snd h]). split.
+      * apply Hsub. apply in_or_app. right. apply in_map_iff. exists h. split; [reflexivity|exact Hin].
+      * apply inS_app. right. rewrite Hh. rewrite <- Hxi. left. reflexivity.
+    + destruct (Hf3 i HF) as [A|[ck [Hck Hic]]].
+      * left. apply HU. exact A.
+      * right. right. exists (fst ck). split; [exact (with_cores_In _ _ _ Ecc ck Hck)|exact Hic].
+  - right. left. apply inS_sort_by. apply inS_iter. apply inS_diff_intro; assumption.
+Qed.
+
+(* ---------- 4. / 5. the whole formation ---------- *)
+Lemma formation_body_covers_id : forall protos w cands, formation_body protos w = Ok cands ->
+  forall i, inS i protos -> exists c, In c cands /\ inS i (cmem c).
+Proof.
+  intros protos w cands H i Hi0.
+  assert (Hi : inS i (sort_by lt_pp protos)) by (apply inS_sort_by; exact Hi0).
+  unfold formation_body in H. cbv zeta in H.
+  destruct (find_hybrids (sort_by lt_pp protos) w) as [[hg un1]|k] eqn:E1; cbn [bind] in H; [|discriminate H].
+  destruct (build_candidates w K_HYBRID hg [] []) as [[[c1 e1] s1]|k] eqn:E2; cbn [bind] in H; [|discriminate H].
+  destruct (build_candidates_covers _ _ _ _ _ _ _ _ E2) as [Ec1 [A1 B1]].
+  destruct (find_interleaved un1 c1 w) as [[ig un2]|k] eqn:E3; cbn [bind] in H; [|discriminate H].
+  destruct (build_candidates w K_INTERLEAVED ig e1 s1) as [[[c2 e2] s2]|k] eqn:E4; cbn [bind] in H; [|discriminate H].
+  destruct (build_candidates_covers _ _ _ _ _ _ _ _ E4) as [Ec2 [A2 B2]].
+  destruct (build_candidates w K_NEIGHBOURING (find_neighbouring un2 c2) e2 s2) as [[[c3 e3] s3]|k] eqn:E5;
+    cbn [bind] in H; [|discriminate H].
+  destruct (build_candidates_covers _ _ _ _ _ _ _ _ E5) as [Ec3 [A3 B3]].
+  destruct (singles_go w e3 (ordered_set (un2 ++ s3))) as [ss|k] eqn:E6; cbn [bind] in H; [|discriminate H].
+  inversion H; subst cands; clear H.
+  assert (Fin : cov i e3 -> exists c, In c (c3 ++ ss) /\ inS i (cmem c)).
+  { intros [c [Hc Hic]]. exists c. split; [|exact Hic]. apply in_or_app. left. rewrite Ec3. apply sort_by_in. exact Hc. }
+  destruct (find_hybrids_covers _ _ _ _ E1 i Hi) as [[g [Hg Hig]]|Hu].
+  - apply Fin. apply A3. apply A2. exact (B1 g i Hg Hig).
+  - destruct (find_interleaved_covers _ _ _ _ _ E3 i Hu) as [[g [Hg Hig]]|[Hu2|[c [Hc Hic]]]].
+    + apply Fin. apply A3. exact (B2 g i Hg Hig).
+    + assert (Hq : inS i (ordered_set (un2 ++ s3))).
+      { apply inS_ordered_set. apply inS_app. left. exact Hu2. }
+      apply inS_witness in Hq. destruct Hq as [q [Hq Hqi]].
+      destruct (singles_go_covers _ _ _ _ E6 q Hq) as [[c [Hc [Hm _]]]|Hex].
+      * exists c. split; [apply in_or_app; right; exact Hc|]. rewrite Hm. rewrite <- Hqi. left. reflexivity.
+      * apply Fin. rewrite <- Hqi. exact Hex.
+    + apply Fin. apply A3. apply A2. exists c. split; [|exact Hic].
+      rewrite Ec1 in Hc. apply sort_by_in in Hc. exact Hc.
+Qed.
+
+Lemma formation_body_covers : forall protos w cands, formation_body protos w = Ok cands ->
+  forall p, In p protos -> exists c, In c cands /\ inS (pid p) (cmem c).
+Proof.
+  intros protos w cands H p Hp. apply (formation_body_covers_id protos w cands H). apply inS_In. exact Hp.
+Qed.
+
+(* ---------- the final assertion ---------- *)
+Lemma inS_concat_cands : forall i (cands : list cand) c, In c cands -> inS i (cmem c) -> inS i (concat (map cmem cands)).
+Proof.
+  intros i cands c Hc Hi. apply inAny_concat. exists (cmem c). split; [apply in_map; exact Hc|exact Hi].
+Qed.
+
+Lemma assigned_count_all : forall protos w cands, NoDup (map pid protos) ->
+  formation_body protos w = Ok cands -> assigned_count cands = zlen protos.
+Proof.
+  intros protos w cands Hnd E. unfold assigned_count, set_size, zlen. f_equal.
+  set (M := concat (map cmem cands)).
+  assert (Hincl : incl (map pid (iter M)) (map pid protos)).
+  { intros i Hi. apply in_map_iff in Hi. destruct Hi as [x [Hx Hin]]. subst i. apply In_iter in Hin.
+    unfold M in Hin. apply in_concat in Hin. destruct Hin as [g [Hg Hxg]]. apply in_map_iff in Hg.
+    destruct Hg as [c [Hc Hcc]]. subst g. apply in_map. exact (proj2 (formation_body_good _ _ _ E c Hcc) x Hxg). }
+  assert (Hrev : incl (map pid protos) (map pid (iter M))).
+  { intros i Hi. destruct (formation_body_covers_id _ _ _ E i Hi) as [c [Hc Hic]].
+    apply (proj2 (inS_iter i M)). unfold M. exact (inS_concat_cands i cands c Hc Hic). }
+  assert (Hnd2 : NoDup (map pid (iter M))) by (apply asc_NoDup; apply asc_iter).
+  pose proof (NoDup_incl_length Hnd2 Hincl) as L1.
+  pose proof (NoDup_incl_length Hnd Hrev) as L2.
+  rewrite !map_length in L1, L2. apply Nat.le_antisymm; assumption.
+Qed.
+
+Lemma coverage_assert_never_fires : forall protos w cands, protos <> [] -> NoDup (map pid protos) ->
+  formation_body protos w = Ok cands -> create_candidates protos w = Ok (sort_by lt_cc cands).
+Proof.
+  intros protos w cands Hne Hnd E. pose proof (assigned_count_all _ _ _ Hnd E) as Ha.
+  unfold create_candidates. destruct protos as [|p0 ps0]; [exfalso; apply Hne; reflexivity|].
+  rewrite E. cbn [bind]. rewrite Ha. rewrite Z.eqb_refl. cbn [negb]. reflexivity.
+Qed.
+
+(* consequently: the whole function fails exactly when the formation itself fails *)
+Lemma create_candidates_is_formation : forall protos w, protos <> [] -> NoDup (map pid protos) ->
+  create_candidates protos w = match formation_body protos w with
+                               | Ok cands => Ok (sort_by lt_cc cands)
+                               | Err k => Err k
+                               end.
+Proof.
+  intros protos w Hne Hnd. destruct (formation_body protos w) as [cands|k] eqn:E.
+  - exact (coverage_assert_never_fires _ _ _ Hne Hnd E).
+  - unfold create_candidates. destruct protos as [|p0 ps0]; [exfalso; apply Hne; reflexivity|].
+    rewrite E. reflexivity.
+Qed.
+End Cover.
+
+Module Kinds.
+(* C05 - what the kinds NEIGHBOURING and INTERLEAVED mean: soundness of the grouping for the model as it is,
+   completeness for the model with the two proposed repairs switched on. *)
+
+(* ====================================================================================== *)
+(* (1) with both flags off the variants are the model                                      *)
+(* ====================================================================================== *)
+Lemma find_interleaved_v_false : forall clusters cands w,
+  find_interleaved_v false clusters cands w = find_interleaved clusters cands w.
+Proof. intros. reflexivity. Qed.
+
+Lemma find_neighbouring_v_false : forall singles cands,
+  find_neighbouring_v false false singles cands = find_neighbouring singles cands.
+Proof. intros. reflexivity. Qed.
+
+Lemma formation_body_v_false : forall protos w,
+  formation_body_v false false protos w = formation_body protos w.
+Proof. intros. reflexivity. Qed.
+
+Lemma create_candidates_v_false : forall protos w,
+  create_candidates_v false false protos w = create_candidates protos w.
+Proof.
+  intros protos w. unfold create_candidates_v, create_candidates. destruct protos as [|p r]; [reflexivity|].
+  rewrite formation_body_v_false. reflexivity.
+Qed.
+
+Theorem variants_are_the_model :
+  (forall clusters cands w, find_interleaved_v false clusters cands w = find_interleaved clusters cands w) /\
+  (forall singles cands, find_neighbouring_v false false singles cands = find_neighbouring singles cands) /\
+  (forall protos w, formation_body_v false false protos w = formation_body protos w) /\
+  (forall protos w, create_candidates_v false false protos w = create_candidates protos w).
+Proof.
+  split; [exact find_interleaved_v_false|]. split; [exact find_neighbouring_v_false|].
+  split; [exact formation_body_v_false|exact create_candidates_v_false].
+Qed.
+
+(* ====================================================================================== *)
+(* overlap is symmetric                                                                    *)
+(* ====================================================================================== *)
+Lemma part_overlap_sym : forall a b, part_overlap a b = part_overlap b a.
+Proof.
+  intros a b. unfold part_overlap.
+  destruct (in_part (ps a) b), (in_part (pe a - 1) b), (in_part (ps b) a), (in_part (pe b - 1) a); reflexivity.
+Qed.
+
+Lemma overlap_true_sym : forall a b, overlap a b = true -> overlap b a = true.
+Proof.
+  intros a b H. unfold overlap in *. apply existsb_exists in H. destruct H as [p [Hp H]].
+  apply existsb_exists in H. destruct H as [q [Hq H]].
+  apply existsb_exists. exists q. split; [exact Hq|]. apply existsb_exists. exists p. split; [exact Hp|].
+  rewrite part_overlap_sym. exact H.
+Qed.
+
+Lemma overlap_sym : forall a b, overlap a b = overlap b a.
+Proof.
+  intros a b. destruct (overlap a b) eqn:E1.
+  - symmetry. apply overlap_true_sym. exact E1.
+  - destruct (overlap b a) eqn:E2; [|reflexivity]. apply overlap_true_sym in E2. rewrite E2 in E1. discriminate E1.
+Qed.
+
+(* ====================================================================================== *)
+(* (2) NEIGHBOURING: the sets handed to _merge_sets                                        *)
+(* ====================================================================================== *)
+Inductive nb_link (singles : list proto) (cands : list cand) : list proto -> Prop :=
+| nbl_cc : forall a b, In a cands -> In b cands -> overlap (cloc a) (cloc b) = true ->
+    nb_link singles cands (union (cmem a) (cmem b))
+| nbl_cs : forall c s, In c cands -> In s singles -> overlap (ploc s) (cloc c) = true ->
+    nb_link singles cands (union (cmem c) [s])
+| nbl_cs' : forall c s, In c cands -> In s singles -> overlap (ploc s) (cloc c) = true ->
+    nb_link singles cands (cmem c ++ [s])
+| nbl_ss : forall s t, In s singles -> In t singles -> overlap (ploc s) (ploc t) = true ->
+    nb_link singles cands [s; t].
+
+Definition nb_hits (nw : bool) (singles : list proto) (cands : list cand) : list (cand * proto) :=
+  flat_map (fun s =>
+     map (fun c => (c, s))
+         (if nw then filter (fun c => overlap (ploc s) (cloc c)) cands
+          else cand_scan_plain (fun c => overlap (ploc s) (cloc c)) (lend (ploc s))
+                               (skipn (window_index_plain cands s) cands ++ firstn 1 cands))) singles.
+Definition nb_unassigned (nw : bool) (singles : list proto) (cands : list cand) : list proto :=
+  diff singles (map snd (nb_hits nw singles cands)).
+Definition nb_edges (nw : bool) (singles : list proto) (cands : list cand) : list cand :=
+  if is_empty (nb_unassigned nw singles cands) || is_empty cands then [] else
+  (match cands with c0 :: _ => if bridges (cloc c0) then [c0] else [] | [] => [] end)
+  ++ (match cands with
+      | _ :: _ :: _ => match last_opt cands with
+                       | Some cl => if bridges (cloc cl) then [cl] else []
+                       | None => []
+                       end
+      | _ => []
+      end).
+Definition nb_edge_groups (nw : bool) (singles : list proto) (cands : list cand) : list (list proto) :=
+  flat_map (fun c =>
+              match filter (fun s => overlap (ploc s) (cloc c)) (iter (nb_unassigned nw singles cands)) with
+              | s :: _ => [cmem c ++ [s]]
+              | [] => []
+              end) (nb_edges nw singles cands).
+(* the list handed to _merge_sets *)
+Definition nb_groups (nw allp : bool) (singles : list proto) (cands : list cand) : list (list proto) :=
+  ((find_neighbouring_candidates cands
+    ++ map (fun h : cand * proto => union (cmem (fst h)) [snd h]) (nb_hits nw singles cands))
+   ++ nb_edge_groups nw singles cands)
+  ++ find_neighbouring_protoclusters
+       (if allp then singles else sort_by lt_pp (iter (nb_unassigned nw singles cands))).
+
+Lemma find_neighbouring_v_groups : forall nw allp singles cands,
+  find_neighbouring_v nw allp singles cands = merge_sets (nb_groups nw allp singles cands).
+Proof. intros. reflexivity. Qed.
+
+Lemma cand_scan_plain_rel : forall rel limit cs c, In c (cand_scan_plain rel limit cs) -> rel c = true.
+Proof.
+  intros rel limit. induction cs as [|a r IH]; intros c H; cbn [cand_scan_plain] in H; [destruct H|].
+  destruct (limit <? lstart (cloc a)); [destruct H|].
+  destruct (rel a) eqn:E.
+  - destruct H as [H|H]; [subst; exact E|exact (IH c H)].
+  - exact (IH c H).
+Qed.
+
+Lemma nb_hits_spec : forall nw singles cands c s, In (c, s) (nb_hits nw singles cands) ->
+  In c cands /\ In s singles /\ overlap (ploc s) (cloc c) = true.
+Proof.
+  intros nw singles cands c s H. unfold nb_hits in H. apply in_flat_map in H. destruct H as [s0 [Hs0 H]].
+  apply in_map_iff in H. destruct H as [c0 [He Hc0]]. inversion He; subst c0 s0. clear He.
+  destruct nw.
+  - apply filter_In in Hc0. destruct Hc0 as [A B]. split; [exact A|]. split; [exact Hs0|exact B].
+  - pose proof (cand_scan_plain_rel _ _ _ _ Hc0) as Hr. cbv beta in Hr.
+    apply cand_scan_plain_In in Hc0. split; [|split; [exact Hs0|exact Hr]].
+    apply in_app_or in Hc0. destruct Hc0 as [A|A]; [exact (In_skipn' _ _ _ _ A)|exact (In_firstn' _ _ _ _ A)].
+Qed.
+
+Lemma nb_hits_complete : forall singles cands c s, In c cands -> In s singles ->
+  overlap (ploc s) (cloc c) = true -> In (c, s) (nb_hits true singles cands).
+Proof.
+  intros singles cands c s Hc Hs Ho. unfold nb_hits. apply in_flat_map. exists s. split; [exact Hs|].
+  apply in_map_iff. exists c. split; [reflexivity|]. apply filter_In. split; [exact Hc|exact Ho].
+Qed.
+
+Lemma nb_unassigned_In : forall nw singles cands x, In x (iter (nb_unassigned nw singles cands)) -> In x singles.
+Proof. intros nw singles cands x H. apply In_iter in H. unfold nb_unassigned in H. apply In_diff in H. exact H. Qed.
+
+Lemma nb_edges_In : forall nw singles cands c, In c (nb_edges nw singles cands) -> In c cands.
+Proof.
+  intros nw singles cands c Hc. unfold nb_edges in Hc.
+  destruct (is_empty (nb_unassigned nw singles cands) || is_empty cands); [destruct Hc|].
+  apply in_app_or in Hc. destruct Hc as [Hc|Hc].
+  - destruct cands as [|c0 r0]; [destruct Hc|]. destruct (bridges (cloc c0)); [|destruct Hc].
+    destruct Hc as [Hc|[]]. subst. left. reflexivity.
+  - destruct cands as [|c0 [|c1 r1]]; [destruct Hc|destruct Hc|].
+    destruct (last_opt (c0 :: c1 :: r1)) as [cl|] eqn:El; [|destruct Hc].
+    destruct (bridges (cloc cl)); [|destruct Hc]. destruct Hc as [Hc|[]]. subst. exact (last_opt_In _ _ _ El).
+Qed.
+
+Lemma fnp_spec : forall pcs g, In g (find_neighbouring_protoclusters pcs) ->
+  exists s t, g = [s; t] /\ In s pcs /\ In t pcs /\ overlap (ploc s) (ploc t) = true.
+Proof.
+  intros pcs g Hg. unfold find_neighbouring_protoclusters in Hg. cbv zeta in Hg. apply in_map_iff in Hg.
+  destruct Hg as [[s t] [He Hst]]. subst g. cbn [fst snd]. exists s, t. split; [reflexivity|].
+  apply in_app_or in Hst. destruct Hst as [Hst|Hst].
+  - apply pairs_rel_In in Hst. exact Hst.
+  - destruct pcs as [|p1 [|p2 r]]; [destruct Hst|destruct Hst|].
+    destruct (first_last (p1 :: p2 :: r)) as [[f l]|] eqn:Efl; [|destruct Hst].
+    destruct (negb (pid f =? pid l) && overlap (ploc f) (ploc l)) eqn:Ec; [|destruct Hst].
+    destruct Hst as [Hst|[]]. inversion Hst; subst f l. apply first_last_In in Efl.
+    apply andb_true_iff in Ec. destruct Efl as [A B]. split; [exact A|]. split; [exact B|exact (proj2 Ec)].
+Qed.
+
+Lemma nb_groups_link : forall nw allp singles cands g,
+  In g (nb_groups nw allp singles cands) -> nb_link singles cands g.
+Proof.
+  intros nw allp singles cands g Hg. unfold nb_groups in Hg.
+  apply in_app_or in Hg. destruct Hg as [Hg|Hg]; [apply in_app_or in Hg; destruct Hg as [Hg|Hg];
+    [apply in_app_or in Hg; destruct Hg as [Hg|Hg]|]|].
+  - unfold find_neighbouring_candidates in Hg. apply in_map_iff in Hg. destruct Hg as [[a b] [He Hab]]. subst g.
+    cbn [fst snd]. apply pairs_rel_In in Hab. destruct Hab as [A [B C]]. apply nbl_cc; assumption.
+  - apply in_map_iff in Hg. destruct Hg as [[c s] [He Hh]]. subst g. cbn [fst snd].
+    destruct (nb_hits_spec _ _ _ _ _ Hh) as [A [B C]]. apply nbl_cs; assumption.
+  - unfold nb_edge_groups in Hg. apply in_flat_map in Hg. destruct Hg as [c [Hc Hg]].
+    destruct (filter (fun s => overlap (ploc s) (cloc c)) (iter (nb_unassigned nw singles cands))) as [|s r] eqn:Ef;
+      [destruct Hg|].
+    destruct Hg as [Hg|[]]. subst g.
+    assert (Hs : In s (s :: r)) by (left; reflexivity). rewrite <- Ef in Hs. apply filter_In in Hs.
+    destruct Hs as [Hs1 Hs2]. apply nbl_cs'; [exact (nb_edges_In _ _ _ _ Hc)|exact (nb_unassigned_In _ _ _ _ Hs1)|exact Hs2].
+  - destruct (fnp_spec _ _ Hg) as [s [t [He [A [B C]]]]]. subst g.
+    assert (Hin : forall y, In y (if allp then singles else sort_by lt_pp (iter (nb_unassigned nw singles cands))) -> In y singles).
+    { intros y Hy. destruct allp; [exact Hy|]. apply sort_by_in in Hy. exact (nb_unassigned_In _ _ _ _ Hy). }
+    apply nbl_ss; [exact (Hin s A)|exact (Hin t B)|exact C].
+Qed.
+
+Theorem neighbouring_sound : forall nw allp singles cands g,
+  In g (find_neighbouring_v nw allp singles cands) ->
+  exists G h0, (forall x, In x G -> nb_link singles cands x) /\ built G h0 /\ forall i, inS i g <-> inS i h0.
+Proof.
+  intros nw allp singles cands g Hg. rewrite find_neighbouring_v_groups in Hg.
+  pose proof (merge_sets_components (nb_groups nw allp singles cands)) as C. cbv zeta in C.
+  destruct C as [_ [_ [_ [HB _]]]]. rewrite Forall_forall in HB. destruct (HB g Hg) as [h0 [Hb He]].
+  exists (nb_groups nw allp singles cands), h0. split; [|split; [exact Hb|exact He]].
+  intros x Hx. exact (nb_groups_link _ _ _ _ _ Hx).
+Qed.
+
+(* ====================================================================================== *)
+(* (3) NEIGHBOURING with both repairs: completeness                                        *)
+(* ====================================================================================== *)
+Lemma merge_sets_holds : forall G g0, In g0 G -> g0 <> [] -> exists h, In h (merge_sets G) /\ subsetP g0 h.
+Proof.
+  intros G g0 Hg Hne. pose proof (merge_sets_components G) as C. cbv zeta in C.
+  destruct C as [_ [_ [HS _]]]. exact (HS g0 Hg Hne).
+Qed.
+
+Lemma subsetP_nonempty : forall a g, a <> [] -> subsetP a g -> g <> [].
+Proof.
+  intros a g Ha Hs He. subst g. destruct a as [|x a']; [apply Ha; reflexivity|].
+  apply (proj1 (inS_nil (pid x))). apply Hs. left. reflexivity.
+Qed.
+
+Lemma inS_single : forall s, inS (pid s) [s].
+Proof. intro s. left. reflexivity. Qed.
+
+Theorem neighbouring_repaired_complete_cc : forall singles cands a b,
+  In a cands -> In b cands -> a <> b -> cmem a <> [] -> overlap (cloc a) (cloc b) = true ->
+  exists g, In g (find_neighbouring_v true true singles cands) /\ subsetP (cmem a) g /\ subsetP (cmem b) g.
+Proof.
+  intros singles cands a b Ha Hb Hne Hma Ho. rewrite find_neighbouring_v_groups.
+  assert (Hg0 : exists g0, In g0 (nb_groups true true singles cands) /\ subsetP (cmem a) g0 /\ subsetP (cmem b) g0).
+  { destruct (In_two_split _ _ a b Hne Ha Hb) as [[l1 [l2 [l3 E]]]|[l1 [l2 [l3 E]]]].
+    - exists (union (cmem a) (cmem b)). split; [|split; [apply subsetP_union_l|apply subsetP_union_r]; intros i Hi; exact Hi].
+      unfold nb_groups. apply in_or_app. left. apply in_or_app. left. apply in_or_app. left.
+      unfold find_neighbouring_candidates. apply in_map_iff. exists (a, b). split; [reflexivity|].
+      rewrite E. apply pairs_rel_complete. exact Ho.
+    - exists (union (cmem b) (cmem a)). split; [|split; [apply subsetP_union_r|apply subsetP_union_l]; intros i Hi; exact Hi].
+      unfold nb_groups. apply in_or_app. left. apply in_or_app. left. apply in_or_app. left.
+      unfold find_neighbouring_candidates. apply in_map_iff. exists (b, a). split; [reflexivity|].
+      rewrite E. apply pairs_rel_complete. apply overlap_true_sym. exact Ho. }
+  destruct Hg0 as [g0 [Hg0 [Sa Sb]]].
+  destruct (merge_sets_holds _ g0 Hg0 (subsetP_nonempty _ _ Hma Sa)) as [h [Hh Hsub]].
+  exists h. split; [exact Hh|]. split; intros i Hi; apply Hsub; [apply Sa|apply Sb]; exact Hi.
+Qed.
+
+Theorem neighbouring_repaired_complete_cs : forall singles cands c s,
+  In c cands -> In s singles -> overlap (ploc s) (cloc c) = true ->
+  exists g, In g (find_neighbouring_v true true singles cands) /\ subsetP (cmem c) g /\ inS (pid s) g.
+Proof.
+  intros singles cands c s Hc Hs Ho. rewrite find_neighbouring_v_groups.
+  assert (Hg0 : In (union (cmem c) [s]) (nb_groups true true singles cands)).
+  { unfold nb_groups. apply in_or_app. left. apply in_or_app. left. apply in_or_app. right.
+    apply in_map_iff. exists (c, s). split; [reflexivity|]. apply nb_hits_complete; assumption. }
+  assert (Hs0 : inS (pid s) (union (cmem c) [s])) by (apply inS_union; right; apply inS_single).
+  assert (Hne : union (cmem c) [s] <> []).
+  { intro He. rewrite He in Hs0. apply inS_nil in Hs0. exact Hs0. }
+  destruct (merge_sets_holds _ _ Hg0 Hne) as [h [Hh Hsub]].
+  exists h. split; [exact Hh|]. split; [|apply Hsub; exact Hs0].
+  intros i Hi. apply Hsub. apply inS_union. left. exact Hi.
+Qed.
+
+Theorem neighbouring_repaired_complete_ss : forall singles cands s t,
+  In s singles -> In t singles -> s <> t -> overlap (ploc s) (ploc t) = true ->
+  exists g, In g (find_neighbouring_v true true singles cands) /\ inS (pid s) g /\ inS (pid t) g.
+Proof.
+  intros singles cands s t Hs Ht Hne Ho. rewrite find_neighbouring_v_groups.
+  assert (Hg0 : exists g0, In g0 (nb_groups true true singles cands) /\ inS (pid s) g0 /\ inS (pid t) g0).
+  { destruct (In_two_split _ _ s t Hne Hs Ht) as [[l1 [l2 [l3 E]]]|[l1 [l2 [l3 E]]]].
+    - exists [s; t]. split; [|split; [left; reflexivity|right; left; reflexivity]].
+      unfold nb_groups. apply in_or_app. right. unfold find_neighbouring_protoclusters. cbv zeta.
+      apply in_map_iff. exists (s, t). split; [reflexivity|]. apply in_or_app. left.
+      rewrite E. apply pairs_rel_complete. exact Ho.
+    - exists [t; s]. split; [|split; [right; left; reflexivity|left; reflexivity]].
+      unfold nb_groups. apply in_or_app. right. unfold find_neighbouring_protoclusters. cbv zeta.
+      apply in_map_iff. exists (t, s). split; [reflexivity|]. apply in_or_app. left.
+      rewrite E. apply pairs_rel_complete. apply overlap_true_sym. exact Ho. }
+  destruct Hg0 as [g0 [Hg0 [Sa Sb]]].
+  assert (Hne0 : g0 <> []). { intro He. rewrite He in Sa. apply inS_nil in Sa. exact Sa. }
+  destruct (merge_sets_holds _ g0 Hg0 Hne0) as [h [Hh Hsub]].
+  exists h. split; [exact Hh|]. split; apply Hsub; assumption.
+Qed.
+
+(* ====================================================================================== *)
+(* (4) INTERLEAVED on linear records (no wrap point)                                       *)
+(* ====================================================================================== *)
+Inductive il_link (w : option Z) (clusters : list proto) (cands : list cand) : list proto -> Prop :=
+| ill_cc : forall a b ka kb, In a cands -> In b cands -> ccore w a = Ok ka -> ccore w b = Ok kb ->
+    overlap ka kb = true -> il_link w clusters cands (cmem a ++ cmem b)
+| ill_pp : forall x y, In x clusters -> In y clusters -> overlap (pcore x) (pcore y) = true ->
+    il_link w clusters cands [x; y]
+| ill_cp : forall c k cl, In c cands -> ccore w c = Ok k -> In cl clusters -> overlap k (pcore cl) = true ->
+    il_link w clusters cands (cmem c ++ [cl]).
+
+Definition il_hits (nw : bool) (clusters : list proto) (cc : list (cand * loc)) : list ((cand * loc) * proto) :=
+  flat_map (fun cl =>
+      map (fun ck => (ck, cl))
+          (if nw then filter (fun ck : cand * loc => overlap (snd ck) (pcore cl)) cc
+           else cand_scan (fun ck => overlap (snd ck) (pcore cl)) (lend (ploc cl))
+                          (skipn (window_index cc cl) cc))) (sort_by core_start_lt clusters).
+(* the list handed to _find_cross_origin_interleaved, and (on a linear record) to _merge_sets *)
+Definition il_groups (nw : bool) (clusters : list proto) (cc : list (cand * loc)) : list (list proto) :=
+  (find_interleaved_candidates cc
+   ++ map (fun xy : proto * proto => [fst xy; snd xy]) (core_pairs (sort_by core_start_lt clusters)))
+  ++ map (fun h : (cand * loc) * proto => cmem (fst (fst h)) ++ [snd h]) (il_hits nw clusters cc).
+
+(* without a wrap point connect_locations returns one part *)
+Lemma connect_linear_simple : forall l r, connect_locations l None = Ok r -> is_compound r = false.
+Proof.
+  intros l r H. unfold connect_locations, connect_fuel in H.
+  replace (2 * length l + 8)%nat with (S (2 * length l + 7))%nat in H by lia.
+  cbn [connect] in H. destruct l as [|l0 l']; [discriminate H|].
+  destruct (existsb bridges (l0 :: l')); [discriminate H|].
+  destruct (mapM (fun l => reduce_parts l None) (l0 :: l')) as [red|k]; cbn [bind] in H; [|discriminate H].
+  unfold hull in H. destruct (mkFL (lmin (map lstart red)) (lmax (map lend red)) (common_strand red)) as [p|k];
+    cbn [bind] in H; [|discriminate H].
+  inversion H. reflexivity.
+Qed.
+
+Lemma connect_nil : forall w, connect_locations [] w = Err E_Value.
+Proof. intro w. destruct w; reflexivity. Qed.
+
+Lemma ccore_nonempty : forall w c k, ccore w c = Ok k -> cmem c <> [].
+Proof.
+  intros w c k H He. unfold ccore in H. rewrite He in H. cbn [map] in H. rewrite connect_nil in H. discriminate H.
+Qed.
+
+Lemma with_cores_spec : forall w cands cc, with_cores w cands = Ok cc ->
+  forall ck, In ck cc -> In (fst ck) cands /\ ccore w (fst ck) = Ok (snd ck).
+Proof.
+  intros w cands cc H ck Hck. unfold with_cores in H. destruct (mapM_In _ _ _ _ _ H ck Hck) as [c [Hc Hf]].
+  destruct (ccore w c) as [k|e] eqn:Ek; cbn [bind] in Hf; [|discriminate Hf]. inversion Hf; subst ck. cbn [fst snd].
+  split; [exact Hc|exact Ek].
+Qed.
+
+Lemma with_cores_fwd : forall w cands cc, with_cores w cands = Ok cc ->
+  forall c k, In c cands -> ccore w c = Ok k -> In (c, k) cc.
+Proof.
+  intros w cands cc H c k Hc Hk. unfold with_cores in H. destruct (mapM_In_fwd _ _ _ _ _ H c Hc) as [y [Hy Hf]].
+  rewrite Hk in Hf. cbn [bind] in Hf. inversion Hf; subst y. exact Hy.
+Qed.
+
+Lemma cross_linear : forall cc unassigned groups,
+  (forall ck, In ck cc -> is_compound (snd ck) = false) ->
+  find_cross_origin_interleaved None cc unassigned groups = Ok ([], groups).
+Proof.
+  intros cc unassigned groups Hnc. unfold find_cross_origin_interleaved.
+  destruct (is_empty unassigned || is_empty cc); [reflexivity|].
+  assert (Hf : filter (fun ck : cand * loc => cand_core_crosses (snd ck)) cc = []).
+  { destruct (filter (fun ck : cand * loc => cand_core_crosses (snd ck)) cc) as [|x r] eqn:E; [reflexivity|].
+    assert (Hx : In x (x :: r)) by (left; reflexivity). rewrite <- E in Hx. apply filter_In in Hx.
+    destruct Hx as [Hx1 Hx2]. unfold cand_core_crosses in Hx2. rewrite (Hnc x Hx1) in Hx2. discriminate Hx2. }
+  cbv zeta. rewrite Hf. reflexivity.
+Qed.
+
+(* on a linear record the interleaved groups are _merge_sets of il_groups *)
+Lemma find_interleaved_v_linear : forall nw clusters cands groups un,
+  find_interleaved_v nw clusters cands None = Ok (groups, un) ->
+  exists cc, with_cores None cands = Ok cc /\ groups = merge_sets (il_groups nw clusters cc).
+Proof.
+  intros nw clusters cands groups un H. unfold find_interleaved_v in H. cbv zeta in H.
+  destruct (with_cores None cands) as [cc|k] eqn:Ecc; cbn [bind] in H; [|discriminate H].
+  assert (Hnc : forall ck, In ck cc -> is_compound (snd ck) = false).
+  { intros ck Hck. destruct (with_cores_spec _ _ _ Ecc ck Hck) as [_ Hk]. unfold ccore in Hk.
+    exact (connect_linear_simple _ _ Hk). }
+  rewrite (cross_linear cc _ _ Hnc) in H. cbn [bind] in H. inversion H. exists cc. split; reflexivity.
+Qed.
+
+Lemma core_pairs_from_rel : forall c rest o, In o (core_pairs_from c rest) -> overlap (pcore c) (pcore o) = true.
+Proof.
+  intros c. induction rest as [|a r IH]; intros o H; cbn [core_pairs_from] in H; [destruct H|].
+  destruct (lend (pcore c) <=? lstart (pcore a)); [destruct H|].
+  destruct (overlap (pcore c) (pcore a)) eqn:E.
+  - destruct H as [H|H]; [subst; exact E|exact (IH o H)].
+  - exact (IH o H).
+Qed.
+
+Lemma core_pairs_rel : forall l x y, In (x, y) (core_pairs l) -> overlap (pcore x) (pcore y) = true.
+Proof.
+  induction l as [|c r IH]; intros x y H; cbn [core_pairs] in H; [destruct H|].
+  apply in_app_or in H. destruct H as [H|H].
+  - apply in_map_iff in H. destruct H as [o [He Ho]]. inversion He; subst. exact (core_pairs_from_rel _ _ _ Ho).
+  - exact (IH x y H).
+Qed.
+
+Lemma cand_scan_rel : forall rel limit cc ck, In ck (cand_scan rel limit cc) -> rel ck = true.
+Proof.
+  intros rel limit. induction cc as [|a r IH]; intros ck H; cbn [cand_scan] in H; [destruct H|].
+  destruct (limit <? lstart (cloc (fst a))); [destruct H|].
+  destruct (rel a) eqn:E.
+  - destruct H as [H|H]; [subst; exact E|exact (IH ck H)].
+  - exact (IH ck H).
+Qed.
+
+Lemma il_hits_spec : forall nw clusters cc ck cl, In (ck, cl) (il_hits nw clusters cc) ->
+  In ck cc /\ In cl clusters /\ overlap (snd ck) (pcore cl) = true.
+Proof.
+  intros nw clusters cc ck cl H. unfold il_hits in H. apply in_flat_map in H. destruct H as [cl0 [Hcl0 H]].
+  apply in_map_iff in H. destruct H as [ck0 [He Hck0]]. inversion He; subst ck0 cl0. clear He.
+  apply sort_by_in in Hcl0. destruct nw.
+  - apply filter_In in Hck0. destruct Hck0 as [A B]. split; [exact A|]. split; [exact Hcl0|exact B].
+  - pose proof (cand_scan_rel _ _ _ _ Hck0) as Hr. cbv beta in Hr.
+    apply cand_scan_In in Hck0. apply In_skipn' in Hck0. split; [exact Hck0|]. split; [exact Hcl0|exact Hr].
+Qed.
+
+Lemma il_hits_complete : forall clusters cc ck cl, In ck cc -> In cl clusters ->
+  overlap (snd ck) (pcore cl) = true -> In (ck, cl) (il_hits true clusters cc).
+Proof.
+  intros clusters cc ck cl Hck Hcl Ho. unfold il_hits. apply in_flat_map. exists cl.
+  split; [apply sort_by_in; exact Hcl|].
+  apply in_map_iff. exists ck. split; [reflexivity|]. apply filter_In. split; [exact Hck|exact Ho].
+Qed.
+
+Lemma fic_spec : forall cc g, In g (find_interleaved_candidates cc) ->
+  exists a b, g = cmem (fst a) ++ cmem (fst b) /\ In a cc /\ In b cc /\ overlap (snd a) (snd b) = true.
+Proof.
+  intros cc g Hg. unfold find_interleaved_candidates in Hg. cbv zeta in Hg. apply in_map_iff in Hg.
+  destruct Hg as [[a b] [He Hab]]. subst g. cbn [fst snd]. exists a, b. split; [reflexivity|].
+  apply in_app_or in Hab. destruct Hab as [Hab|Hab].
+  - apply pairs_rel_In in Hab. exact Hab.
+  - destruct cc as [|c1 [|c2 r]]; [destruct Hab|destruct Hab|].
+    destruct (first_last (c1 :: c2 :: r)) as [[f l]|] eqn:Efl; [|destruct Hab].
+    destruct (overlap (snd f) (snd l)) eqn:Ec; [|destruct Hab].
+    destruct Hab as [Hab|[]]. inversion Hab; subst f l. apply first_last_In in Efl.
+    destruct Efl as [A B]. split; [exact A|]. split; [exact B|exact Ec].
+Qed.
+
+Lemma il_groups_link : forall nw clusters cands cc g, with_cores None cands = Ok cc ->
+  In g (il_groups nw clusters cc) -> il_link None clusters cands g.
+Proof.
+  intros nw clusters cands cc g Ecc Hg. unfold il_groups in Hg.
+  apply in_app_or in Hg. destruct Hg as [Hg|Hg]; [apply in_app_or in Hg; destruct Hg as [Hg|Hg]|].
+  - destruct (fic_spec _ _ Hg) as [a [b [He [A [B C]]]]]. subst g.
+    destruct (with_cores_spec _ _ _ Ecc a A) as [A1 A2]. destruct (with_cores_spec _ _ _ Ecc b B) as [B1 B2].
+    exact (ill_cc None clusters cands (fst a) (fst b) (snd a) (snd b) A1 B1 A2 B2 C).
+  - apply in_map_iff in Hg. destruct Hg as [[x y] [He Hxy]]. subst g. cbn [fst snd].
+    pose proof (core_pairs_rel _ _ _ Hxy) as Hr. apply core_pairs_In in Hxy. destruct Hxy as [A B].
+    apply sort_by_in in A. apply sort_by_in in B. apply ill_pp; assumption.
+  - apply in_map_iff in Hg. destruct Hg as [[ck cl] [He Hh]]. subst g. cbn [fst snd].
+    destruct (il_hits_spec _ _ _ _ _ Hh) as [A [B C]]. destruct (with_cores_spec _ _ _ Ecc ck A) as [A1 A2].
+    exact (ill_cp None clusters cands (fst ck) (snd ck) cl A1 A2 B C).
+Qed.
+
+Theorem interleaved_sound : forall nw clusters cands groups un,
+  find_interleaved_v nw clusters cands None = Ok (groups, un) ->
+  forall g, In g groups ->
+  exists G h0, (forall x, In x G -> il_link None clusters cands x) /\ built G h0 /\ forall i, inS i g <-> inS i h0.
+Proof.
+  intros nw clusters cands groups un H g Hg. destruct (find_interleaved_v_linear _ _ _ _ _ H) as [cc [Ecc Egr]].
+  subst groups. pose proof (merge_sets_components (il_groups nw clusters cc)) as C. cbv zeta in C.
+  destruct C as [_ [_ [_ [HB _]]]]. rewrite Forall_forall in HB. destruct (HB g Hg) as [h0 [Hb He]].
+  exists (il_groups nw clusters cc), h0. split; [|split; [exact Hb|exact He]].
+  intros x Hx. exact (il_groups_link _ _ _ _ _ Ecc Hx).
+Qed.
+
+Lemma inS_app : forall i a b, inS i (a ++ b) <-> inS i a \/ inS i b.
+Proof. intros i a b. unfold inS. rewrite map_app. apply in_app_iff. Qed.
+
+(* completeness: two candidates with overlapping cores end in one group (whatever the flag) *)
+Theorem interleaved_complete_cc : forall nw clusters cands groups un a b ka kb,
+  find_interleaved_v nw clusters cands None = Ok (groups, un) ->
+  In a cands -> In b cands -> a <> b -> ccore None a = Ok ka -> ccore None b = Ok kb -> overlap ka kb = true ->
+  exists g, In g groups /\ subsetP (cmem a) g /\ subsetP (cmem b) g.
+Proof.
+  intros nw clusters cands groups un a b ka kb H Ha Hb Hne Hka Hkb Ho.
+  destruct (find_interleaved_v_linear _ _ _ _ _ H) as [cc [Ecc Egr]]. subst groups.
+  pose proof (with_cores_fwd _ _ _ Ecc a ka Ha Hka) as Ia. pose proof (with_cores_fwd _ _ _ Ecc b kb Hb Hkb) as Ib.
+  assert (Hne' : (a, ka) <> (b, kb)) by (intro He; inversion He; apply Hne; assumption).
+  assert (Hg0 : exists g0, In g0 (il_groups nw clusters cc) /\ subsetP (cmem a) g0 /\ subsetP (cmem b) g0).
+  { destruct (In_two_split _ _ _ _ Hne' Ia Ib) as [[l1 [l2 [l3 E]]]|[l1 [l2 [l3 E]]]].
+    - exists (cmem a ++ cmem b).
+      split; [|split; intros i Hi; apply inS_app; [left|right]; exact Hi].
+      unfold il_groups. apply in_or_app. left. apply in_or_app. left.
+      unfold find_interleaved_candidates. cbv zeta. apply in_map_iff. exists ((a, ka), (b, kb)). split; [reflexivity|].
+      apply in_or_app. left. rewrite E. apply pairs_rel_complete. exact Ho.
+    - exists (cmem b ++ cmem a).
+      split; [|split; intros i Hi; apply inS_app; [right|left]; exact Hi].
+      unfold il_groups. apply in_or_app. left. apply in_or_app. left.
+      unfold find_interleaved_candidates. cbv zeta. apply in_map_iff. exists ((b, kb), (a, ka)). split; [reflexivity|].
+      apply in_or_app. left. rewrite E. apply pairs_rel_complete. cbn [snd]. apply overlap_true_sym. exact Ho. }
+  destruct Hg0 as [g0 [Hg0 [Sa Sb]]].
+  destruct (merge_sets_holds _ g0 Hg0 (subsetP_nonempty _ _ (ccore_nonempty _ _ _ Hka) Sa)) as [h [Hh Hsub]].
+  exists h. split; [exact Hh|]. split; intros i Hi; apply Hsub; [apply Sa|apply Sb]; exact Hi.
+Qed.
+
+(* completeness with the window repair: a candidate and a protocluster with overlapping cores end in one group *)
+Theorem interleaved_repaired_complete_cp : forall clusters cands groups un c k cl,
+  find_interleaved_v true clusters cands None = Ok (groups, un) ->
+  In c cands -> ccore None c = Ok k -> In cl clusters -> overlap k (pcore cl) = true ->
+  exists g, In g groups /\ subsetP (cmem c) g /\ inS (pid cl) g.
+Proof.
+  intros clusters cands groups un c k cl H Hc Hk Hcl Ho.
+  destruct (find_interleaved_v_linear _ _ _ _ _ H) as [cc [Ecc Egr]]. subst groups.
+  pose proof (with_cores_fwd _ _ _ Ecc c k Hc Hk) as Ic.
+  assert (Hg0 : In (cmem c ++ [cl]) (il_groups true clusters cc)).
+  { unfold il_groups. apply in_or_app. right. apply in_map_iff. exists ((c, k), cl). split; [reflexivity|].
+    apply il_hits_complete; [exact Ic|exact Hcl|exact Ho]. }
+  assert (Hs0 : inS (pid cl) (cmem c ++ [cl])) by (apply inS_app; right; apply inS_single).
+  assert (Hne : cmem c ++ [cl] <> []).
+  { intro He. rewrite He in Hs0. apply inS_nil in Hs0. exact Hs0. }
+  destruct (merge_sets_holds _ _ Hg0 Hne) as [h [Hh Hsub]].
+  exists h. split; [exact Hh|]. split; [|apply Hsub; exact Hs0].
+  intros i Hi. apply Hsub. apply inS_app. left. exact Hi.
+Qed.
+
+(* completeness for two protoclusters with overlapping cores: the inner loop breaks at the first later protocluster
+   (by core start) whose core starts at or after the end of the current core; the list being sorted by core start and the
+   parts of the cores being proper intervals, the break never comes before an overlapping protocluster *)
+Fixpoint ssorted {A} (key : A -> Z) (l : list A) : Prop :=
+  match l with [] => True | x :: r => (forall y, In y r -> key x <= key y) /\ ssorted key r end.
+
+Lemma insert_by_ssorted : forall A (key : A -> Z) x l,
+  ssorted key l -> ssorted key (insert_by (fun a b => key a <? key b) x l).
+Proof.
+  intros A key x. induction l as [|y ys IH]; intro H; cbn [insert_by].
+  - cbn [ssorted]. split; [intros y []|exact I].
+  - destruct H as [Hy Hys]. destruct (key x <? key y) eqn:E.
+    + apply Z.ltb_lt in E. cbn [ssorted]. split; [|split; [exact Hy|exact Hys]].
+      intros z [Hz|Hz]; [subst z; lia|]. specialize (Hy z Hz). lia.
+    + apply Z.ltb_ge in E. cbn [ssorted]. split; [|exact (IH Hys)].
+      intros z Hz. apply (Permutation_in _ (insert_by_perm A (fun a b => key a <? key b) x ys)) in Hz.
+      destruct Hz as [Hz|Hz]; [subst z; exact E|exact (Hy z Hz)].
+Qed.
+
+Lemma sort_by_ssorted : forall A (key : A -> Z) l, ssorted key (sort_by (fun a b => key a <? key b) l).
+Proof.
+  intros A key l. unfold sort_by.
+  assert (G : forall l acc, ssorted key acc ->
+                ssorted key (fold_left (fun acc x => insert_by (fun a b => key a <? key b) x acc) l acc)).
+  { induction l0 as [|x xs IH]; intros acc Ha; cbn [fold_left]; [exact Ha|].
+    apply IH. apply insert_by_ssorted. exact Ha. }
+  apply G. exact I.
+Qed.
+
+Lemma ssorted_app_r : forall A (key : A -> Z) l1 l2, ssorted key (l1 ++ l2) -> ssorted key l2.
+Proof.
+  intros A key. induction l1 as [|a r IH]; intros l2 H; [exact H|]. cbn [app ssorted] in H. exact (IH l2 (proj2 H)).
+Qed.
+
+Lemma ssorted_before : forall A (key : A -> Z) l2 y l3, ssorted key (l2 ++ y :: l3) ->
+  forall o, In o l2 -> key o <= key y.
+Proof.
+  intros A key. induction l2 as [|a r IH]; intros y l3 H o Ho; [destruct Ho|]. cbn [app ssorted] in H.
+  destruct H as [Ha Hr].
+  destruct Ho as [Ho|Ho]; [subst o; apply Ha; apply in_or_app; right; left; reflexivity|exact (IH y l3 Hr o Ho)].
+Qed.
+
+Lemma overlap_hull_lt : forall a b, (forall p, In p a -> ps p < pe p) -> (forall p, In p b -> ps p < pe p) ->
+  overlap a b = true -> lstart b < lend a.
+Proof.
+  intros a b Ha Hb Ho.
+  assert (Fa : Forall ASV.C04.Proofs.wf_part a) by (apply Forall_forall; exact Ha).
+  assert (Fb : Forall ASV.C04.Proofs.wf_part b) by (apply Forall_forall; exact Hb).
+  apply (ASV.C04.Proofs.overlap_spec a b Fa Fb) in Ho. destruct Ho as [x [[p [Hp Hpx]] [q [Hq Hqx]]]].
+  assert (H1 : lstart b <= ps q) by (unfold lstart; apply ASV.C04.Proofs.lmin_le; apply in_map; exact Hq).
+  assert (H2 : pe p <= lend a) by (unfold lend; apply ASV.C04.Proofs.lmax_ge; apply in_map; exact Hp).
+  lia.
+Qed.
+
+Lemma core_pairs_from_complete : forall x l2 y l3,
+  (forall o, In o l2 -> lstart (pcore o) < lend (pcore x)) -> lstart (pcore y) < lend (pcore x) ->
+  overlap (pcore x) (pcore y) = true -> In y (core_pairs_from x (l2 ++ y :: l3)).
+Proof.
+  intros x. induction l2 as [|o r IH]; intros y l3 Hl Hy Ho; cbn [app core_pairs_from].
+  - destruct (lend (pcore x) <=? lstart (pcore y)) eqn:E; [apply Z.leb_le in E; lia|].
+    rewrite Ho. left. reflexivity.
+  - assert (Hlo : lstart (pcore o) < lend (pcore x)) by (apply Hl; left; reflexivity).
+    destruct (lend (pcore x) <=? lstart (pcore o)) eqn:E; [apply Z.leb_le in E; lia|].
+    assert (IH' : In y (core_pairs_from x (r ++ y :: l3))).
+    { apply IH; [intros o' Ho'; apply Hl; right; exact Ho'|exact Hy|exact Ho]. }
+    destruct (overlap (pcore x) (pcore o)); [right; exact IH'|exact IH'].
+Qed.
+
+Lemma core_pairs_complete : forall l1 x l2 y l3,
+  ssorted (fun p => lstart (pcore p)) (l1 ++ x :: l2 ++ y :: l3) ->
+  lstart (pcore y) < lend (pcore x) -> overlap (pcore x) (pcore y) = true ->
+  In (x, y) (core_pairs (l1 ++ x :: l2 ++ y :: l3)).
+Proof.
+  intros l1 x l2 y l3 Hs Hy Ho. apply ssorted_app_r in Hs. induction l1 as [|a r IH]; cbn [app core_pairs]; apply in_or_app.
+  - left. apply in_map. apply core_pairs_from_complete; [|exact Hy|exact Ho].
+    cbn [ssorted] in Hs. destruct Hs as [_ Hs]. intros o Hin.
+    pose proof (ssorted_before _ (fun p => lstart (pcore p)) l2 y l3 Hs o Hin) as Hle. cbv beta in Hle. lia.
+  - right. exact IH.
+Qed.
+
+Theorem interleaved_complete_pp : forall nw clusters cands groups un x y,
+  find_interleaved_v nw clusters cands None = Ok (groups, un) ->
+  In x clusters -> In y clusters -> x <> y ->
+  (forall p, In p (pcore x) -> ps p < pe p) -> (forall p, In p (pcore y) -> ps p < pe p) ->
+  overlap (pcore x) (pcore y) = true ->
+  exists g, In g groups /\ inS (pid x) g /\ inS (pid y) g.
+Proof.
+  intros nw clusters cands groups un x y H Hx Hy Hne Wx Wy Ho.
+  destruct (find_interleaved_v_linear _ _ _ _ _ H) as [cc [Ecc Egr]]. subst groups.
+  pose proof (sort_by_ssorted _ (fun p => lstart (pcore p)) clusters) as Hs.
+  change (ssorted (fun p => lstart (pcore p)) (sort_by core_start_lt clusters)) in Hs.
+  apply (sort_by_in _ core_start_lt) in Hx. apply (sort_by_in _ core_start_lt) in Hy.
+  assert (Hg0 : exists g0, In g0 (il_groups nw clusters cc) /\ inS (pid x) g0 /\ inS (pid y) g0).
+  { destruct (In_two_split _ _ x y Hne Hx Hy) as [[l1 [l2 [l3 E]]]|[l1 [l2 [l3 E]]]].
+    - exists [x; y]. split; [|split; [left; reflexivity|right; left; reflexivity]].
+      unfold il_groups. apply in_or_app. left. apply in_or_app. right.
+      apply in_map_iff. exists (x, y). split; [reflexivity|]. rewrite E in Hs |- *.
+      apply core_pairs_complete; [exact Hs|exact (overlap_hull_lt _ _ Wx Wy Ho)|exact Ho].
+    - exists [y; x]. split; [|split; [right; left; reflexivity|left; reflexivity]].
+      unfold il_groups. apply in_or_app. left. apply in_or_app. right.
+      apply in_map_iff. exists (y, x). split; [reflexivity|]. rewrite E in Hs |- *.
+      apply overlap_true_sym in Ho.
+      apply core_pairs_complete; [exact Hs|exact (overlap_hull_lt _ _ Wy Wx Ho)|exact Ho]. }
+  destruct Hg0 as [g0 [Hg0 [Sa Sb]]].
+  assert (Hne0 : g0 <> []). { intro He. rewrite He in Sa. apply inS_nil in Sa. exact Sa. }
+  destruct (merge_sets_holds _ g0 Hg0 Hne0) as [h [Hh Hsub]].
+  exists h. split; [exact Hh|]. split; apply Hsub; assumption.
+Qed.
+End Kinds.
+
+Module Order.
+(* C05 - order independence of create_candidates_from_protoclusters under a no-tie guard,
+   a readable sufficient condition on linear records, and uniqueness material. *)
+
+(* ================================================================== generic: the stable insertion sort *)
+(* weakly sorted: no later element is smaller than an earlier one *)
+Inductive wsorted {A} (lt : A -> A -> bool) : list A -> Prop :=
+| ws_nil : wsorted lt []
+| ws_cons : forall a l, wsorted lt l -> (forall b, In b l -> lt b a = false) -> wsorted lt (a :: l).
+
+(* irreflexive and transitive on the elements that satisfy P *)
+Definition irrefl_on {A} (P : A -> Prop) (lt : A -> A -> bool) : Prop :=
+  forall a, P a -> lt a a = false.
+Definition trans_on {A} (P : A -> Prop) (lt : A -> A -> bool) : Prop :=
+  forall a b c, P a -> P b -> P c -> lt a b = true -> lt b c = true -> lt a c = true.
+
+Lemma lt_asym_on : forall A (P : A -> Prop) (lt : A -> A -> bool),
+  irrefl_on P lt -> trans_on P lt ->
+  forall a b, P a -> P b -> lt a b = true -> lt b a = false.
+Proof.
+  intros A P lt Hirr Htr a b Pa Pb H. destruct (lt b a) eqn:E; [|reflexivity].
+  pose proof (Htr a b a Pa Pb Pa H E) as X. rewrite (Hirr a Pa) in X. discriminate.
+Qed.
+
+Lemma insert_by_wsorted_on : forall A (P : A -> Prop) (lt : A -> A -> bool),
+  irrefl_on P lt -> trans_on P lt ->
+  forall x l, P x -> (forall y, In y l -> P y) -> wsorted lt l -> wsorted lt (insert_by lt x l).
+Proof.
+  intros A P lt Hirr Htr x. induction l as [|y ys IH]; intros Px Pl Hs; cbn [insert_by].
+  - constructor; [constructor|]. intros b Hb. destruct Hb.
+  - inversion Hs as [|? ? Hs' Hall]; subst.
+    assert (Py : P y) by (apply Pl; left; reflexivity).
+    assert (Pys : forall z, In z ys -> P z) by (intros z Hz; apply Pl; right; exact Hz).
+    destruct (lt x y) eqn:E.
+    + constructor; [exact Hs|]. intros z Hz. destruct Hz as [Hz|Hz].
+      * subst z. apply (lt_asym_on A P lt Hirr Htr); assumption.
+      * destruct (lt z x) eqn:Ezx; [|reflexivity].
+        pose proof (Htr z x y (Pys z Hz) Px Py Ezx E) as X. rewrite (Hall z Hz) in X. discriminate.
+    + constructor; [apply IH; assumption|].
+      intros z Hz.
+      apply (Permutation_in _ (insert_by_perm A lt x ys)) in Hz. destruct Hz as [Hz|Hz].
+      * subst z. exact E.
+      * apply Hall. exact Hz.
+Qed.
+
+Lemma fold_insert_wsorted_on : forall A (P : A -> Prop) (lt : A -> A -> bool),
+  irrefl_on P lt -> trans_on P lt ->
+  forall l acc, (forall y, In y l -> P y) -> (forall y, In y acc -> P y) -> wsorted lt acc ->
+  wsorted lt (fold_left (fun acc x => insert_by lt x acc) l acc).
+Proof.
+  intros A P lt Hirr Htr. induction l as [|x xs IH]; intros acc Pl Pacc Hs; cbn [fold_left]; [exact Hs|].
+  apply IH.
+  - intros y Hy. apply Pl. right. exact Hy.
+  - intros y Hy. apply (Permutation_in _ (insert_by_perm A lt x acc)) in Hy. destruct Hy as [Hy|Hy].
+    + subst y. apply Pl. left. reflexivity.
+    + apply Pacc. exact Hy.
+  - apply (insert_by_wsorted_on A P lt Hirr Htr); [apply Pl; left; reflexivity|exact Pacc|exact Hs].
+Qed.
+
+Lemma sort_by_wsorted_on : forall A (P : A -> Prop) (lt : A -> A -> bool),
+  irrefl_on P lt -> trans_on P lt ->
+  forall l, (forall y, In y l -> P y) -> wsorted lt (sort_by lt l).
+Proof.
+  intros A P lt Hirr Htr l Pl. unfold sort_by.
+  apply (fold_insert_wsorted_on A P lt Hirr Htr); [exact Pl| |constructor].
+  intros y Hy. destruct Hy.
+Qed.
+
+(* two weakly sorted arrangements of the same elements coincide when no two different elements tie
+   (no transitivity needed here) *)
+Lemma wsorted_unique : forall A (lt : A -> A -> bool) (l1 l2 : list A),
+  wsorted lt l1 -> wsorted lt l2 -> Permutation l1 l2 ->
+  (forall a b, In a l1 -> In b l1 -> lt a b = false -> lt b a = false -> a = b) ->
+  l1 = l2.
+Proof.
+  intros A lt. induction l1 as [|a t1 IH]; intros l2 H1 H2 Hp Htot.
+  - apply Permutation_nil in Hp. symmetry. exact Hp.
+  - destruct l2 as [|b t2]; [apply Permutation_sym in Hp; apply Permutation_nil in Hp; discriminate|].
+    inversion H1 as [|? ? H1' Ha]; subst. inversion H2 as [|? ? H2' Hb]; subst.
+    assert (Hab : a = b).
+    { assert (Ia : In a (b :: t2)) by (apply (Permutation_in _ Hp); left; reflexivity).
+      assert (Ib : In b (a :: t1)) by (apply (Permutation_in _ (Permutation_sym Hp)); left; reflexivity).
+      destruct Ia as [E|Ia]; [symmetry; exact E|].
+      destruct Ib as [E|Ib]; [exact E|].
+      apply Htot; [left; reflexivity|right; exact Ib|apply Hb; exact Ia|apply Ha; exact Ib]. }
+    subst b. f_equal. apply IH; [exact H1'|exact H2'|apply Permutation_cons_inv with a; exact Hp|].
+    intros x y Hx Hy. apply Htot; right; assumption.
+Qed.
+
+(* the sort of a permuted list is the same list, provided no two different elements tie and the
+   comparison is a strict order on the elements of the list *)
+Lemma sort_by_perm_unique_on : forall A (lt : A -> A -> bool) (l l' : list A),
+  irrefl_on (fun a => In a l) lt -> trans_on (fun a => In a l) lt ->
+  Permutation l l' ->
+  (forall a b, In a l -> In b l -> lt a b = false -> lt b a = false -> a = b) ->
+  sort_by lt l = sort_by lt l'.
+Proof.
+  intros A lt l l' Hirr Htr Hp Htot. apply (wsorted_unique A lt).
+  - apply (sort_by_wsorted_on A (fun a => In a l) lt Hirr Htr). intros y Hy. exact Hy.
+  - apply (sort_by_wsorted_on A (fun a => In a l) lt Hirr Htr). intros y Hy.
+    apply (Permutation_in _ (Permutation_sym Hp)). exact Hy.
+  - apply Permutation_trans with l; [apply sort_by_perm|].
+    apply Permutation_trans with l'; [exact Hp|apply Permutation_sym; apply sort_by_perm].
+  - intros a b Ia Ib. apply Htot; apply (Permutation_in _ (sort_by_perm A lt l)); assumption.
+Qed.
+
+(* ================================================================== (1) order independence of the formation *)
+Lemma pair_lt_irrefl : forall x, pair_lt x x = false.
+Proof. intros [a b]. unfold pair_lt. cbn [fst snd]. lia. Qed.
+
+Lemma if_true_l : forall (c x : bool), (if c then true else x) = c || x.
+Proof. intros [|] x; reflexivity. Qed.
+Lemma if_false_l : forall (c x : bool), (if c then false else x) = negb c && x.
+Proof. intros [|] x; reflexivity. Qed.
+
+(* CDSCollection.__lt__ between protoclusters: the shortcuts, then the (start, -len) comparison *)
+Lemma lt_pp_unfold : forall a b,
+  lt_pp a b = (contains (ploc a) (ploc b) && negb (contains (ploc b) (ploc a)))
+              || (negb (contains (ploc b) (ploc a) && negb (contains (ploc a) (ploc b)))
+                  && pair_lt (comparator (ploc a)) (comparator (ploc b))).
+Proof.
+  intros a b. unfold lt_pp, coll_lt. cbn [existsb].
+  rewrite if_true_l, if_false_l. reflexivity.
+Qed.
+
+Lemma lt_pp_irrefl : forall a, lt_pp a a = false.
+Proof.
+  intros a. rewrite lt_pp_unfold. rewrite pair_lt_irrefl.
+  destruct (contains (ploc a) (ploc a)); reflexivity.
+Qed.
+
+Lemma lt_pp_asym : forall a b, lt_pp a b = true -> lt_pp b a = false.
+Proof.
+  intros a b. rewrite !lt_pp_unfold.
+  destruct (contains (ploc a) (ploc b)), (contains (ploc b) (ploc a)); cbn [andb orb negb];
+    try (intros; reflexivity); try (intros; discriminate).
+  - destruct (comparator (ploc a)) as [x y], (comparator (ploc b)) as [x' y'].
+    unfold pair_lt; cbn [fst snd]. lia.
+  - destruct (comparator (ploc a)) as [x y], (comparator (ploc b)) as [x' y'].
+    unfold pair_lt; cbn [fst snd]. lia.
+Qed.
+
+(* the guard: no two different protoclusters of the input tie under __lt__ *)
+Definition no_tie (protos : list proto) : Prop :=
+  forall a b, In a protos -> In b protos -> lt_pp a b = false -> lt_pp b a = false -> a = b.
+(* __lt__ is transitive on the protoclusters of the input (it always is irreflexive and asymmetric: lt_pp_irrefl,
+   lt_pp_asym; it is NOT transitive on arbitrary multi-part locations: lt_pp_cycle below) *)
+Definition lt_trans (protos : list proto) : Prop := trans_on (fun a => In a protos) lt_pp.
+
+Lemma sorted_protos_order_independent : forall protos protos',
+  Permutation protos protos' -> no_tie protos -> lt_trans protos ->
+  sort_by lt_pp protos = sort_by lt_pp protos'.
+Proof.
+  intros protos protos' Hp Hnt Htr. apply sort_by_perm_unique_on.
+  - intros a _. apply lt_pp_irrefl.
+  - exact Htr.
+  - exact Hp.
+  - exact Hnt.
+Qed.
+
+Lemma zlen_perm : forall A (l l' : list A), Permutation l l' -> zlen l = zlen l'.
+Proof. intros A l l' Hp. unfold zlen. rewrite (Permutation_length Hp). reflexivity. Qed.
+
+Lemma formation_body_of_sorted : forall protos protos' w,
+  sort_by lt_pp protos = sort_by lt_pp protos' -> formation_body protos w = formation_body protos' w.
+Proof. intros protos protos' w H. unfold formation_body. rewrite H. reflexivity. Qed.
+
+Lemma formation_body_v_of_sorted : forall nw allp protos protos' w,
+  sort_by lt_pp protos = sort_by lt_pp protos' ->
+  formation_body_v nw allp protos w = formation_body_v nw allp protos' w.
+Proof. intros nw allp protos protos' w H. unfold formation_body_v. rewrite H. reflexivity. Qed.
+
+(* create_candidates depends on the order of its input only through sorted(protoclusters) *)
+Lemma create_candidates_of_sorted : forall protos protos' w,
+  Permutation protos protos' -> sort_by lt_pp protos = sort_by lt_pp protos' ->
+  create_candidates protos w = create_candidates protos' w.
+Proof.
+  intros protos protos' w Hp Hs.
+  destruct protos as [|p l].
+  - apply Permutation_nil in Hp. subst protos'. reflexivity.
+  - destruct protos' as [|p' l'].
+    + apply Permutation_sym in Hp. apply Permutation_nil in Hp. discriminate.
+    + unfold create_candidates.
+      rewrite (formation_body_of_sorted (p :: l) (p' :: l') w Hs).
+      rewrite (zlen_perm _ _ _ Hp). reflexivity.
+Qed.
+
+Lemma create_candidates_v_of_sorted : forall nw allp protos protos' w,
+  Permutation protos protos' -> sort_by lt_pp protos = sort_by lt_pp protos' ->
+  create_candidates_v nw allp protos w = create_candidates_v nw allp protos' w.
+Proof.
+  intros nw allp protos protos' w Hp Hs.
+  destruct protos as [|p l].
+  - apply Permutation_nil in Hp. subst protos'. reflexivity.
+  - destruct protos' as [|p' l'].
+    + apply Permutation_sym in Hp. apply Permutation_nil in Hp. discriminate.
+    + unfold create_candidates_v.
+      rewrite (formation_body_v_of_sorted nw allp (p :: l) (p' :: l') w Hs).
+      rewrite (zlen_perm _ _ _ Hp). reflexivity.
+Qed.
+
+(* END TO END: the candidates do not depend on the order in which the protoclusters are supplied, when no two
+   of them tie under __lt__ and __lt__ is transitive on them *)
+Theorem create_candidates_order_independent : forall protos protos' w,
+  Permutation protos protos' -> no_tie protos -> lt_trans protos ->
+  create_candidates protos w = create_candidates protos' w.
+Proof.
+  intros protos protos' w Hp Hnt Htr. apply create_candidates_of_sorted; [exact Hp|].
+  apply sorted_protos_order_independent; assumption.
+Qed.
+
+Theorem create_candidates_v_order_independent : forall nw allp protos protos' w,
+  Permutation protos protos' -> no_tie protos -> lt_trans protos ->
+  create_candidates_v nw allp protos w = create_candidates_v nw allp protos' w.
+Proof.
+  intros nw allp protos protos' w Hp Hnt Htr. apply create_candidates_v_of_sorted; [exact Hp|].
+  apply sorted_protos_order_independent; assumption.
+Qed.
+
+(* why transitivity is part of the guard: on arbitrary (multi-part) locations __lt__ has cycles without any tie,
+   and then sorted() does depend on the order of its input *)
+Definition cy_A : proto := mkProto 1 [mkPart 0 10 1] [mkPart 1 2 1] 1 [].
+Definition cy_B : proto := mkProto 2 [mkPart 0 9 1; mkPart 0 9 1] [mkPart 1 2 1] 2 [].
+Definition cy_C : proto := mkProto 3 [mkPart 0 3 1; mkPart 20 32 1] [mkPart 1 2 1] 3 [].
+Lemma lt_pp_cycle :
+  lt_pp cy_A cy_B = true /\ lt_pp cy_B cy_C = true /\ lt_pp cy_C cy_A = true.
+Proof. vm_compute. repeat split. Qed.
+Lemma no_tie_alone_not_enough :
+  no_tie [cy_A; cy_B; cy_C] /\ Permutation [cy_A; cy_B; cy_C] [cy_B; cy_C; cy_A] /\
+  sort_by lt_pp [cy_A; cy_B; cy_C] <> sort_by lt_pp [cy_B; cy_C; cy_A].
+Proof.
+  split; [|split].
+  - intros a b Ha Hb.
+    cbn [In] in Ha, Hb.
+    destruct Ha as [Ha|[Ha|[Ha|[]]]]; destruct Hb as [Hb|[Hb|[Hb|[]]]]; subst a b;
+      try (intros; reflexivity); vm_compute; intros; discriminate.
+  - apply Permutation_trans with [cy_B; cy_A; cy_C]; [apply perm_swap|].
+    apply perm_skip. apply perm_swap.
+  - vm_compute. intros H. discriminate.
+Qed.
+
+(* ... and so does the formation itself: the literal statement "Permutation + no_tie -> same candidates" is FALSE
+   in the model.  Five protoclusters, no tie, two orders of supply, different candidates (a SINGLE for 1 and 2 in one
+   order, for 4 in the other).  The witness needs a location with a repeated part ([0,9) twice, which makes its
+   length exceed that of the location containing it); lt_trans excludes it. *)
+Definition ce_A : proto := mkProto 1 [mkPart 0 10 1] [mkPart 1 2 1] 1 [100].
+Definition ce_B : proto := mkProto 5 [mkPart 0 9 1; mkPart 0 9 1] [mkPart 0 1 1] 5 [].
+Definition ce_C : proto := mkProto 3 [mkPart 0 3 1; mkPart 20 32 1] [mkPart 1 2 1] 3 [200].
+Definition ce_P2 : proto := mkProto 2 [mkPart 25 32 1] [mkPart 26 27 1] 2 [100].
+Definition ce_P4 : proto := mkProto 4 [mkPart 21 25 1] [mkPart 22 23 1] 4 [200].
+Definition ce_L1 : list proto := [ce_P2; ce_P4; ce_A; ce_B; ce_C].
+Definition ce_L2 : list proto := [ce_P2; ce_P4; ce_B; ce_C; ce_A].
+Lemma no_tie_alone_not_enough_end_to_end :
+  no_tie ce_L1 /\ Permutation ce_L1 ce_L2 /\
+  (exists o1 o2, create_candidates ce_L1 None = Ok o1 /\ create_candidates ce_L2 None = Ok o2 /\
+                 length o1 = 4%nat /\ length o2 = 3%nat) /\
+  create_candidates ce_L1 None <> create_candidates ce_L2 None.
+Proof.
+  split; [|split; [|split]].
+  - intros a b Ha Hb. unfold ce_L1 in Ha, Hb. cbn [In] in Ha, Hb.
+    destruct Ha as [Ha|[Ha|[Ha|[Ha|[Ha|[]]]]]]; destruct Hb as [Hb|[Hb|[Hb|[Hb|[Hb|[]]]]]]; subst a b;
+      try (intros; reflexivity); vm_compute; intros; discriminate.
+  - unfold ce_L1, ce_L2. do 2 apply perm_skip.
+    apply Permutation_trans with [ce_B; ce_A; ce_C]; [apply perm_swap|].
+    apply perm_skip. apply perm_swap.
+  - eexists. eexists. split; [vm_compute; reflexivity|]. split; [vm_compute; reflexivity|]. split; reflexivity.
+  - vm_compute. intros H. discriminate.
+Qed.
+
+(* ================================================================== (2) linear records: single-part protoclusters *)
+(* a protocluster whose location is one part with start < end *)
+Definition single_lin (p : proto) : Prop := exists q, ploc p = [q] /\ ps q < pe q.
+
+(* on single parts the containment shortcuts agree with the (start, -len) comparison *)
+Lemma lt_pp_single : forall a b qa qb,
+  ploc a = [qa] -> ploc b = [qb] -> ps qa <= pe qa -> ps qb <= pe qb ->
+  lt_pp a b = pair_lt (ps qa, ps qa - pe qa) (ps qb, ps qb - pe qb).
+Proof.
+  intros a b qa qb Ha Hb La Lb. rewrite lt_pp_unfold. rewrite Ha, Hb.
+  unfold contains, comparator, bridges, is_compound, lstart, llen, part_contains, pair_lt.
+  cbn [forallb existsb map lmin fold_left fold_right fst snd].
+  lia.
+Qed.
+
+Lemma no_tie_linear_distinct : forall protos,
+  (forall p, In p protos -> single_lin p) ->
+  (forall a b qa qb, In a protos -> In b protos -> ploc a = [qa] -> ploc b = [qb] ->
+                     ps qa = ps qb -> pe qa = pe qb -> a = b) ->
+  no_tie protos.
+Proof.
+  intros protos Hlin Hdist a b Ia Ib Hab Hba.
+  destruct (Hlin a Ia) as [qa [Ha La]]. destruct (Hlin b Ib) as [qb [Hb Lb]].
+  rewrite (lt_pp_single a b qa qb Ha Hb) in Hab by lia.
+  rewrite (lt_pp_single b a qb qa Hb Ha) in Hba by lia.
+  unfold pair_lt in Hab, Hba. cbn [fst snd] in Hab, Hba.
+  apply (Hdist a b qa qb Ia Ib Ha Hb); lia.
+Qed.
+
+(* the simpler reading: different protoclusters of the input have different locations, all on one strand *)
+Lemma no_tie_linear_distinct_loc : forall protos st,
+  (forall p, In p protos -> exists q, ploc p = [q] /\ ps q < pe q /\ pst q = st) ->
+  (forall a b, In a protos -> In b protos -> ploc a = ploc b -> a = b) ->
+  no_tie protos.
+Proof.
+  intros protos st Hlin Hdist. apply no_tie_linear_distinct.
+  - intros p Ip. destruct (Hlin p Ip) as [q [H1 [H2 _]]]. exists q. split; assumption.
+  - intros a b qa qb Ia Ib Ha Hb Hs He. apply Hdist; [exact Ia|exact Ib|].
+    destruct (Hlin a Ia) as [qa' [Ha' [_ Sa]]]. destruct (Hlin b Ib) as [qb' [Hb' [_ Sb]]].
+    rewrite Ha in Ha'. rewrite Hb in Hb'. injection Ha' as <-. injection Hb' as <-.
+    rewrite Ha, Hb. f_equal.
+    destruct qa as [s1 e1 t1], qb as [s2 e2 t2]. cbn [ps pe pst] in *. subst. reflexivity.
+Qed.
+
+Lemma lt_trans_linear : forall protos, (forall p, In p protos -> single_lin p) -> lt_trans protos.
+Proof.
+  intros protos Hlin a b c Ia Ib Ic Hab Hbc.
+  destruct (Hlin a Ia) as [qa [Ha La]]. destruct (Hlin b Ib) as [qb [Hb Lb]].
+  destruct (Hlin c Ic) as [qc [Hc Lc]].
+  rewrite (lt_pp_single a b qa qb Ha Hb) in Hab by lia.
+  rewrite (lt_pp_single b c qb qc Hb Hc) in Hbc by lia.
+  rewrite (lt_pp_single a c qa qc Ha Hc) by lia.
+  unfold pair_lt in *. cbn [fst snd] in *. lia.
+Qed.
+
+(* END TO END on linear records: with single-part protoclusters of pairwise different coordinates the
+   candidates do not depend on the order in which the protoclusters are supplied *)
+Theorem create_candidates_order_independent_linear : forall protos protos' w,
+  Permutation protos protos' ->
+  (forall p, In p protos -> single_lin p) ->
+  (forall a b qa qb, In a protos -> In b protos -> ploc a = [qa] -> ploc b = [qb] ->
+                     ps qa = ps qb -> pe qa = pe qb -> a = b) ->
+  create_candidates protos w = create_candidates protos' w.
+Proof.
+  intros protos protos' w Hp Hlin Hdist. apply create_candidates_order_independent; [exact Hp| |].
+  - apply no_tie_linear_distinct; assumption.
+  - apply lt_trans_linear; exact Hlin.
+Qed.
+
+Theorem create_candidates_v_order_independent_linear : forall nw allp protos protos' w,
+  Permutation protos protos' ->
+  (forall p, In p protos -> single_lin p) ->
+  (forall a b qa qb, In a protos -> In b protos -> ploc a = [qa] -> ploc b = [qb] ->
+                     ps qa = ps qb -> pe qa = pe qb -> a = b) ->
+  create_candidates_v nw allp protos w = create_candidates_v nw allp protos' w.
+Proof.
+  intros nw allp protos protos' w Hp Hlin Hdist. apply create_candidates_v_order_independent; [exact Hp| |].
+  - apply no_tie_linear_distinct; assumption.
+  - apply lt_trans_linear; exact Hlin.
+Qed.
+
+(* non-vacuity: three concrete protoclusters (nested, overlapping, and one sharing a start) *)
+Definition nt_p (i s e cs ce : Z) : proto := mkProto i [mkPart s e 1] [mkPart cs ce 1] i [].
+Definition nt_protos : list proto :=
+  [nt_p 1 100 900 600 700; nt_p 2 100 500 200 300; nt_p 3 400 1200 1000 1100].
+Lemma nt_protos_hyps :
+  (forall p, In p nt_protos -> single_lin p) /\
+  (forall a b qa qb, In a nt_protos -> In b nt_protos -> ploc a = [qa] -> ploc b = [qb] ->
+                     ps qa = ps qb -> pe qa = pe qb -> a = b).
+Proof.
+  split.
+  - intros p Ip. cbn [In nt_protos] in Ip.
+    destruct Ip as [Ip|[Ip|[Ip|[]]]]; subst p; eexists; (split; [reflexivity|cbn; lia]).
+  - intros a b qa qb Ia Ib Ha Hb Hs He. cbn [In nt_protos] in Ia, Ib.
+    destruct Ia as [Ia|[Ia|[Ia|[]]]]; destruct Ib as [Ib|[Ib|[Ib|[]]]]; subst a b;
+      try reflexivity;
+      cbn in Ha, Hb; injection Ha as <-; injection Hb as <-; cbn in Hs, He; lia.
+Qed.
+Lemma nt_protos_no_tie : no_tie nt_protos.
+Proof. apply no_tie_linear_distinct; apply nt_protos_hyps. Qed.
+Lemma nt_protos_order_independent : forall protos' w,
+  Permutation nt_protos protos' -> create_candidates nt_protos w = create_candidates protos' w.
+Proof.
+  intros protos' w Hp. apply create_candidates_order_independent_linear; [exact Hp| |]; apply nt_protos_hyps.
+Qed.
+(* and the formation succeeds on them (the statement is not about an error value) *)
+Lemma nt_protos_runs : exists out, create_candidates nt_protos None = Ok out /\ length out = 4%nat.
+Proof. eexists. split; [vm_compute; reflexivity|reflexivity]. Qed.
+
+(* ================================================================== (3) no two candidates with the same coordinates
+   and membership (linear records, single-part protoclusters) *)
+Definition linP (P : list proto) : Prop := forall p, In p P -> exists q, ploc p = [q] /\ ps q < pe q.
+(* (smallest start, largest end) of a list of members *)
+Definition span (ms : list proto) : Z * Z :=
+  (lmin (map lstart (map ploc ms)), lmax (map lend (map ploc ms))).
+(* every entry of the table is stored under its own coordinates *)
+Definition keys_match (t : table) : Prop := forall k c, In (k, c) t -> ckey c = k.
+
+Lemma key_eqb_eq : forall a b, key_eqb a b = true -> a = b.
+Proof. intros [a1 a2] [b1 b2] H. unfold key_eqb in H. cbn [fst snd] in H. f_equal; lia. Qed.
+Lemma key_eqb_refl : forall a, key_eqb a a = true.
+Proof. intros [a1 a2]. unfold key_eqb. cbn [fst snd]. lia. Qed.
+
+Lemma ckey_single : forall c h, cloc c = [h] -> ckey c = (ps h, pe h).
+Proof.
+  intros c h H. unfold ckey, fstart, fend. rewrite H. unfold lstrand, last_opt. cbn [forallb rev app].
+  destruct (pst h =? -1); reflexivity.
+Qed.
+
+Lemma good_linear : forall P c, linP P -> good P None c ->
+  exists h, cloc c = [h] /\ ps h = fst (span (cmem c)) /\ pe h = snd (span (cmem c)).
+Proof.
+  intros P c Hs [[Hne Hcon] Hin]. unfold span. cbn [fst snd].
+  set (locs := map ploc (cmem c)) in *.
+  assert (Hsimple : ASV.C04.Proofs.simple_locs locs).
+  { unfold ASV.C04.Proofs.simple_locs. apply Forall_forall. intros l Hl. unfold locs in Hl. apply in_map_iff in Hl.
+    destruct Hl as [p [He Hp]]. subst l. destruct (Hs p (Hin p Hp)) as [q [Hq _]]. exists q. exact Hq. }
+  assert (Hwf : Forall ASV.C04.Proofs.wf_loc locs).
+  { apply Forall_forall. intros l Hl. unfold locs in Hl. apply in_map_iff in Hl.
+    destruct Hl as [p [He Hp]]. subst l. destruct (Hs p (Hin p Hp)) as [q [Hq Hlt]]. rewrite Hq.
+    split; [discriminate|]. constructor; [exact Hlt|constructor]. }
+  assert (Hlne : locs <> []).
+  { unfold locs. destruct (cmem c); [exfalso; apply Hne; reflexivity|discriminate]. }
+  destruct (ASV.C04.Proofs.connect_line_simple locs Hlne Hsimple Hwf) as [h [Hh [Hps [Hpe _]]]].
+  rewrite Hcon in Hh. inversion Hh as [Hcl]. exists h. split; [exact Hcl|]. split; assumption.
+Qed.
+
+(* on a linear record the coordinates of a candidate are the span of its members *)
+Lemma good_ckey : forall P c, linP P -> good P None c -> ckey c = span (cmem c).
+Proof.
+  intros P c Hs Hg. destruct (good_linear P c Hs Hg) as [h [Hc [H1 H2]]].
+  rewrite (ckey_single c h Hc). rewrite H1, H2. symmetry. apply surjective_pairing.
+Qed.
+
+Lemma in_mstarts : forall ms v, In v (map lstart (map ploc ms)) <-> exists x, In x ms /\ lstart (ploc x) = v.
+Proof.
+  intros ms v. rewrite map_map. rewrite in_map_iff. split.
+  - intros [x [A B]]. exists x. split; assumption.
+  - intros [x [A B]]. exists x. split; assumption.
+Qed.
+Lemma in_mends : forall ms v, In v (map lend (map ploc ms)) <-> exists x, In x ms /\ lend (ploc x) = v.
+Proof.
+  intros ms v. rewrite map_map. rewrite in_map_iff. split.
+  - intros [x [A B]]. exists x. split; assumption.
+  - intros [x [A B]]. exists x. split; assumption.
+Qed.
+
+(* the span of a union of two member lists with one and the same span is that span *)
+Lemma span_union : forall ms1 ms2 m k,
+  ms1 <> [] -> span ms1 = k -> span ms2 = k ->
+  (forall x, In x m -> In x ms1 \/ In x ms2) -> (forall x, In x ms1 -> In x m) -> span m = k.
+Proof.
+  intros ms1 ms2 m k Hne H1 H2 Hsub Hsup. subst k. unfold span in *. injection H2 as E1 E2.
+  assert (Hs1 : map lstart (map ploc ms1) <> []) by (destruct ms1; [congruence|discriminate]).
+  assert (He1 : map lend (map ploc ms1) <> []) by (destruct ms1; [congruence|discriminate]).
+  assert (Hmne : m <> []).
+  { destruct ms1 as [|x r]; [congruence|]. intro Hm. pose proof (Hsup x (or_introl eq_refl)) as Hx.
+    rewrite Hm in Hx. destruct Hx. }
+  assert (Hsm : map lstart (map ploc m) <> []) by (destruct m; [congruence|discriminate]).
+  assert (Hem : map lend (map ploc m) <> []) by (destruct m; [congruence|discriminate]).
+  f_equal.
+  - apply Z.le_antisymm.
+    + apply ASV.C04.Proofs.lmin_le.
+      pose proof (ASV.C04.Proofs.lmin_in _ Hs1) as Hin. apply in_mstarts in Hin. destruct Hin as [x [Hx Hv]].
+      apply in_mstarts. exists x. split; [apply Hsup; exact Hx|exact Hv].
+    + pose proof (ASV.C04.Proofs.lmin_in _ Hsm) as Hin. apply in_mstarts in Hin. destruct Hin as [x [Hx Hv]].
+      rewrite <- Hv. destruct (Hsub x Hx) as [Hx1|Hx2].
+      * apply ASV.C04.Proofs.lmin_le. apply in_mstarts. exists x. split; [exact Hx1|reflexivity].
+      * rewrite <- E1. apply ASV.C04.Proofs.lmin_le. apply in_mstarts. exists x. split; [exact Hx2|reflexivity].
+  - apply Z.le_antisymm.
+    + pose proof (ASV.C04.Proofs.lmax_in _ Hem) as Hin. apply in_mends in Hin. destruct Hin as [x [Hx Hv]].
+      rewrite <- Hv. destruct (Hsub x Hx) as [Hx1|Hx2].
+      * apply ASV.C04.Proofs.lmax_ge. apply in_mends. exists x. split; [exact Hx1|reflexivity].
+      * rewrite <- E2. apply ASV.C04.Proofs.lmax_ge. apply in_mends. exists x. split; [exact Hx2|reflexivity].
+    + apply ASV.C04.Proofs.lmax_ge.
+      pose proof (ASV.C04.Proofs.lmax_in _ He1) as Hin. apply in_mends in Hin. destruct Hin as [x [Hx Hv]].
+      apply in_mends. exists x. split; [apply Hsup; exact Hx|exact Hv].
+Qed.
+
+(* iteration of a set without repeated ids loses nothing *)
+Lemma In_set_insert_keep : forall (x y : proto) l, In y l -> In y (set_insert x l).
+Proof.
+  intros x y. induction l as [|a r IH]; intro H; [destruct H|]. cbn [set_insert].
+  destruct (pid x <? pid a); [right; exact H|]. destruct (pid x =? pid a); [exact H|].
+  destruct H as [H|H]; [left; exact H|right; exact (IH H)].
+Qed.
+Lemma In_set_insert_new : forall (x : proto) l, ~ inS (pid x) l -> In x (set_insert x l).
+Proof.
+  intros x. induction l as [|a r IH]; intro H; cbn [set_insert]; [left; reflexivity|].
+  destruct (pid x <? pid a); [left; reflexivity|]. destruct (pid x =? pid a) eqn:E.
+  - exfalso. apply H. unfold inS. cbn [map In]. left. lia.
+  - right. apply IH. intro Hr. apply H. unfold inS in *. cbn [map In]. right. exact Hr.
+Qed.
+Lemma In_iter_ndg : forall l x, ndg l -> In x l -> In x (iter l).
+Proof.
+  induction l as [|a r IH]; intros x Hnd Hx; [destruct Hx|].
+  unfold ndg in Hnd. cbn [map] in Hnd. inversion Hnd as [|? ? Hn Hr]; subst.
+  unfold iter. cbn [fold_right]. change (fold_right set_insert [] r) with (iter r).
+  destruct Hx as [Hx|Hx].
+  - subst x. apply In_set_insert_new. intro Hi. apply (proj1 (inS_iter _ _)) in Hi. exact (Hn Hi).
+  - apply In_set_insert_keep. apply IH; [exact Hr|exact Hx].
+Qed.
+
+Lemma tset_In_cases : forall k c t k' c',
+  In (k', c') (tset k c t) -> In (k', c') t \/ (c' = c /\ key_eqb k k' = true).
+Proof.
+  intros k c. induction t as [|[k0 c0] r IH]; intros k' c' H; cbn [tset] in H.
+  - destruct H as [H|[]]. inversion H; subst. right. split; [reflexivity|apply key_eqb_refl].
+  - destruct (key_eqb k k0) eqn:E.
+    + destruct H as [H|H]; [inversion H; subst; right; split; [reflexivity|exact E]|left; right; exact H].
+    + destruct H as [H|H]; [left; left; exact H|].
+      destruct (IH k' c' H) as [A|A]; [left; right; exact A|right; exact A].
+Qed.
+
+Lemma tget_key : forall k t c, tget k t = Some c -> exists k', In (k', c) t /\ key_eqb k k' = true.
+Proof.
+  intros k. induction t as [|[k0 c0] r IH]; intros c H; cbn [tget] in H; [discriminate H|].
+  destruct (key_eqb k k0) eqn:E.
+  - inversion H; subst. exists k0. split; [left; reflexivity|exact E].
+  - destruct (IH c H) as [k' [A B]]. exists k'. split; [right; exact A|exact B].
+Qed.
+
+Lemma tget_of_entry : forall t k c, keys_distinct t -> In (k, c) t -> tget k t = Some c.
+Proof.
+  induction t as [|[k0 c0] r IH]; intros k c HK Hin; [destruct Hin|].
+  cbn [keys_distinct] in HK. destruct HK as [H1 H2]. cbn [tget]. destruct Hin as [Hin|Hin].
+  - inversion Hin; subst. rewrite key_eqb_refl. reflexivity.
+  - rewrite key_eqb_sym. rewrite (H1 k c Hin). exact (IH k c H2 Hin).
+Qed.
+
+Lemma In_tvalues : forall (t : table) c, In c (tvalues t) <-> exists k, In (k, c) t.
+Proof.
+  intros t c. unfold tvalues. rewrite in_map_iff. split.
+  - intros [[k c'] [A B]]. cbn [snd] in A. subst c'. exists k. exact B.
+  - intros [k H]. exists (k, c). split; [reflexivity|exact H].
+Qed.
+
+(* one group of build_candidates *)
+Lemma build_go_split : forall w kind group rest existing singles e s,
+  build_go w kind (group :: rest) existing singles = Ok (e, s) ->
+  exists e1 s1, build_go w kind [group] existing singles = Ok (e1, s1) /\ build_go w kind rest e1 s1 = Ok (e, s).
+Proof.
+  intros w kind group rest existing singles e s H. cbn [build_go] in *.
+  destruct (negb ((kind =? K_SINGLE) || (1 <? zlen group))); [discriminate H|].
+  destruct (mk_cand w kind (ordered_list group)) as [candidate|k]; cbn [bind] in *; [|discriminate H].
+  destruct (tget (ckey candidate) existing) as [ex|].
+  - destruct (is_empty (iter (diff group (iter (cmem ex))))).
+    + do 2 eexists. split; [reflexivity|exact H].
+    + destruct (mk_cand w (ckind ex) (ordered_list (iter (cmem ex) ++ iter (diff group (iter (cmem ex))))))
+        as [replacement|k]; cbn [bind] in *; [|discriminate H].
+      do 2 eexists. split; [reflexivity|exact H].
+  - do 2 eexists. split; [reflexivity|exact H].
+Qed.
+
+Lemma build_go_step_match : forall P kind group existing singles e1 s1, linP P ->
+  build_go None kind [group] existing singles = Ok (e1, s1) ->
+  incl group P -> keys_match existing ->
+  (forall c, In c (tvalues existing) -> good P None c) ->
+  (forall c, In c (tvalues existing) -> ndg (cmem c)) ->
+  keys_match e1.
+Proof.
+  intros P kind group existing singles e1 s1 Hs H Hgroup HK HE HN. cbn [build_go] in H.
+  destruct (negb ((kind =? K_SINGLE) || (1 <? zlen group))); [discriminate H|].
+  destruct (mk_cand None kind (ordered_list group)) as [candidate|k] eqn:Ec; cbn [bind] in H; [|discriminate H].
+  destruct (mk_cand_wfc _ _ _ _ Ec) as [Wc [Mc _]].
+  assert (Hcand : good P None candidate).
+  { split; [exact Wc|]. rewrite Mc. intros x Hx. apply Hgroup. apply In_ordered_list. exact Hx. }
+  pose proof (good_ckey P candidate Hs Hcand) as Kc. rewrite Mc in Kc.
+  destruct (tget (ckey candidate) existing) as [ex|] eqn:Et.
+  - destruct (tget_key _ _ _ Et) as [k' [Hin Hk']]. apply key_eqb_eq in Hk'. subst k'.
+    pose proof (HK _ _ Hin) as Kex.
+    assert (Hinv : In ex (tvalues existing)) by (apply In_tvalues; exists (ckey candidate); exact Hin).
+    pose proof (HE ex Hinv) as Gex. pose proof (HN ex Hinv) as Nex.
+    destruct (is_empty (iter (diff group (iter (cmem ex))))).
+    + inversion H; subst. exact HK.
+    + destruct (mk_cand None (ckind ex) (ordered_list (iter (cmem ex) ++ iter (diff group (iter (cmem ex))))))
+        as [replacement|k] eqn:Er; cbn [bind] in H; [|discriminate H].
+      inversion H; subst e1 s1; clear H.
+      destruct (mk_cand_wfc _ _ _ _ Er) as [Wr [Mr _]].
+      assert (Hsub : forall x, In x (cmem replacement) -> In x (cmem ex) \/ In x (ordered_list group)).
+      { intros x Hx. rewrite Mr in Hx. apply (proj1 (In_ordered_list _ _)) in Hx. apply in_app_or in Hx.
+        destruct Hx as [Hx|Hx].
+        - left. apply In_iter. exact Hx.
+        - right. apply In_ordered_list. apply In_iter in Hx. apply In_diff in Hx. exact Hx. }
+      assert (Hsup : forall x, In x (cmem ex) -> In x (cmem replacement)).
+      { intros x Hx. rewrite Mr. apply In_ordered_list. apply in_or_app. left. apply In_iter_ndg; assumption. }
+      assert (Hrep : good P None replacement).
+      { split; [exact Wr|]. intros x Hx. destruct (Hsub x Hx) as [A|A].
+        - exact (proj2 Gex x A).
+        - apply Hgroup. apply In_ordered_list. exact A. }
+      intros k c Hc. apply tset_In_cases in Hc. destruct Hc as [Hc|[Hc Hk]]; [exact (HK k c Hc)|].
+      subst c. apply key_eqb_eq in Hk. subst k.
+      rewrite (good_ckey P replacement Hs Hrep).
+      apply (span_union (cmem ex) (ordered_list group)).
+      * exact (proj1 (proj1 Gex)).
+      * rewrite <- (good_ckey P ex Hs Gex). exact Kex.
+      * symmetry. exact Kc.
+      * exact Hsub.
+      * exact Hsup.
+  - inversion H; subst e1 s1; clear H.
+    intros k c Hc. apply tset_In_cases in Hc. destruct Hc as [Hc|[Hc Hk]]; [exact (HK k c Hc)|].
+    subst c. apply key_eqb_eq in Hk. exact Hk.
+Qed.
+
+(* the invariant of the table of build_candidates on a linear record *)
+Definition tinv (P : list proto) (t : table) : Prop :=
+  keys_distinct t /\ keys_match t /\
+  (forall c, In c (tvalues t) -> good P None c) /\ (forall c, In c (tvalues t) -> ndg (cmem c)).
+
+Lemma build_go_keys_match : forall P kind groups existing singles e s, linP P ->
+  build_go None kind groups existing singles = Ok (e, s) ->
+  allin P groups -> (forall g, In g groups -> ndg g) -> incl singles P -> tinv P existing ->
+  tinv P e /\ incl s P.
+Proof.
+  intros P kind. induction groups as [|group rest IH]; intros existing singles e s Hs H HG HNg HS HT.
+  - cbn [build_go] in H. inversion H; subst. split; assumption.
+  - destruct (build_go_split _ _ _ _ _ _ _ _ H) as [e1 [s1 [H1 H2]]].
+    destruct HT as [T1 [T2 [T3 T4]]].
+    assert (HG1 : allin P [group]).
+    { intros g x [Hg|[]] Hx. subst g. exact (HG group x (or_introl eq_refl) Hx). }
+    assert (HGr : allin P rest) by (intros g x Hg Hx; exact (HG g x (or_intror Hg) Hx)).
+    destruct (build_go_good P _ _ _ _ _ _ _ H1 HG1 T3 HS) as [G1 S1].
+    apply (IH e1 s1 e s Hs H2 HGr).
+    + intros g Hg. exact (HNg g (or_intror Hg)).
+    + exact S1.
+    + split; [|split; [|split]].
+      * exact (build_go_keys_distinct _ _ _ _ _ _ _ H1 T1).
+      * apply (build_go_step_match P kind group existing singles e1 s1 Hs H1); try assumption.
+        intros x Hx. exact (HG group x (or_introl eq_refl) Hx).
+      * exact G1.
+      * apply (build_go_ndg _ _ _ _ _ _ _ H1); [|exact T4].
+        intros g [Hg|[]]. subst g. exact (HNg group (or_introl eq_refl)).
+Qed.
+
+Lemma build_candidates_tinv : forall P kind groups existing singles cs e s, linP P ->
+  build_candidates None kind groups existing singles = Ok (cs, e, s) ->
+  allin P groups -> (forall g, In g groups -> ndg g) -> incl singles P -> tinv P existing ->
+  cs = sort_by lt_cc (tvalues e) /\ tinv P e /\ incl s P.
+Proof.
+  intros P kind groups existing singles cs e s Hs H HG HN HS HT. unfold build_candidates in H.
+  destruct (build_go None kind groups existing singles) as [[e0 s0]|k] eqn:Eb; cbn [bind] in H; [|discriminate H].
+  inversion H; subst; clear H. split; [reflexivity|].
+  exact (build_go_keys_match P kind groups existing singles e s Hs Eb HG HN HS HT).
+Qed.
+
+(* the formation on a linear record: the table after the three passes, and the final singles *)
+Lemma formation_body_shape : forall protos cands, linP protos -> formation_body protos None = Ok cands ->
+  exists e3 l ss, cands = sort_by lt_cc (tvalues e3) ++ ss /\ tinv protos e3 /\
+                  singles_go None e3 l = Ok ss /\ ndg l /\ incl l protos.
+Proof.
+  intros protos cands Hs H. unfold formation_body in H. cbv zeta in H.
+  destruct (find_hybrids (sort_by lt_pp protos) None) as [[hg un1]|k] eqn:E1; cbn [bind] in H; [|discriminate H].
+  destruct (find_hybrids_allin _ _ _ _ E1) as [A1 B1].
+  pose proof (find_hybrids_ndg _ _ _ _ E1) as N1.
+  assert (HP : incl (sort_by lt_pp protos) protos) by (intros x Hx; apply sort_by_in in Hx; exact Hx).
+  assert (A1' : allin protos hg) by (intros g x Hg Hx; exact (HP x (A1 g x Hg Hx))).
+  assert (B1' : incl un1 protos) by (intros x Hx; exact (HP x (B1 x Hx))).
+  assert (T0 : tinv protos []).
+  { split; [exact I|]. split; [intros k c []|]. split; intros c []. }
+  destruct (build_candidates None K_HYBRID hg [] []) as [[[c1 e1] s1]|k] eqn:E2; cbn [bind] in H; [|discriminate H].
+  destruct (build_candidates_tinv protos _ _ _ _ _ _ _ Hs E2 A1' N1 (fun x (Hx : In x []) => match Hx with end) T0)
+    as [C1 [T1 S1]].
+  assert (G1 : forall c, In c c1 -> good protos None c).
+  { intros c Hc. rewrite C1 in Hc. apply sort_by_in in Hc. exact (proj1 (proj2 (proj2 T1)) c Hc). }
+  destruct (find_interleaved un1 c1 None) as [[ig un2]|k] eqn:E3; cbn [bind] in H; [|discriminate H].
+  destruct (find_interleaved_allin protos _ _ _ _ _ E3 B1') as [A3 B3]; [intros c Hc; exact (proj2 (G1 c Hc))|].
+  pose proof (find_interleaved_ndg _ _ _ _ _ E3) as N3.
+  assert (B3' : incl un2 protos) by (intros x Hx; exact (B1' x (B3 x Hx))).
+  destruct (build_candidates None K_INTERLEAVED ig e1 s1) as [[[c2 e2] s2]|k] eqn:E4; cbn [bind] in H; [|discriminate H].
+  destruct (build_candidates_tinv protos _ _ _ _ _ _ _ Hs E4 A3 N3 S1 T1) as [C2 [T2 S2]].
+  assert (G2 : forall c, In c c2 -> good protos None c).
+  { intros c Hc. rewrite C2 in Hc. apply sort_by_in in Hc. exact (proj1 (proj2 (proj2 T2)) c Hc). }
+  destruct (build_candidates None K_NEIGHBOURING (find_neighbouring un2 c2) e2 s2) as [[[c3 e3] s3]|k] eqn:E5;
+    cbn [bind] in H; [|discriminate H].
+  assert (A5 : allin protos (find_neighbouring un2 c2)).
+  { apply find_neighbouring_allin; [exact B3'|intros c Hc; exact (proj2 (G2 c Hc))]. }
+  assert (N5 : forall g, In g (find_neighbouring un2 c2) -> ndg g).
+  { intros g Hg. unfold find_neighbouring in Hg. cbv zeta in Hg. exact (ndg_merge_sets _ _ Hg). }
+  destruct (build_candidates_tinv protos _ _ _ _ _ _ _ Hs E5 A5 N5 S2 T2) as [C3 [T3 S3]].
+  destruct (singles_go None e3 (ordered_set (un2 ++ s3))) as [ss|k] eqn:E6; cbn [bind] in H; [|discriminate H].
+  inversion H; subst cands; clear H.
+  exists e3, (ordered_set (un2 ++ s3)), ss. split; [rewrite C3; reflexivity|]. split; [exact T3|].
+  split; [exact E6|]. split; [apply ndg_ordered_set|].
+  intros x Hx. apply In_ordered_set in Hx. apply in_app_or in Hx. destruct Hx as [Hx|Hx]; [exact (B3' x Hx)|exact (S3 x Hx)].
+Qed.
+
+(* same coordinates and same membership *)
+Definition same_cand (a b : cand) : Prop :=
+  cloc a = cloc b /\ (forall i, inS i (cmem a) <-> inS i (cmem b)).
+
+Lemma same_cand_sym : forall a b, ~ same_cand a b -> ~ same_cand b a.
+Proof.
+  intros a b H [H1 H2]. apply H. split; [symmetry; exact H1|]. intro i. symmetry. apply H2.
+Qed.
+
+Lemma FOP_perm : forall A (R : A -> A -> Prop) l l', (forall a b, R a b -> R b a) ->
+  Permutation l l' -> ForallOrdPairs R l -> ForallOrdPairs R l'.
+Proof.
+  intros A R l l' Hsym Hp. induction Hp as [|x l l' Hp IH|x y l|l l' l'' Hp1 IH1 Hp2 IH2]; intro H.
+  - exact H.
+  - inversion H as [|? ? HF HR]; subst. constructor; [|exact (IH HR)].
+    rewrite Forall_forall in *. intros z Hz. apply HF. apply (Permutation_in _ (Permutation_sym Hp)). exact Hz.
+  - inversion H as [|? ? HF HR]; subst. inversion HR as [|? ? HF' HR']; subst.
+    inversion HF as [|? ? Hyx HFy]; subst.
+    constructor; [constructor; [apply Hsym; exact Hyx|exact HF']|constructor; [exact HFy|exact HR']].
+  - exact (IH2 (IH1 H)).
+Qed.
+
+Lemma FOP_app : forall A (R : A -> A -> Prop) l1 l2,
+  ForallOrdPairs R l1 -> ForallOrdPairs R l2 -> (forall a b, In a l1 -> In b l2 -> R a b) ->
+  ForallOrdPairs R (l1 ++ l2).
+Proof.
+  intros A R. induction l1 as [|x r IH]; intros l2 H1 H2 Hx; cbn [app]; [exact H2|].
+  inversion H1 as [|? ? HF HR]; subst. constructor.
+  - apply Forall_forall. intros z Hz. apply in_app_or in Hz. destruct Hz as [Hz|Hz].
+    + rewrite Forall_forall in HF. exact (HF z Hz).
+    + apply Hx; [left; reflexivity|exact Hz].
+  - apply IH; [exact HR|exact H2|]. intros a b Ha Hb. apply Hx; [right; exact Ha|exact Hb].
+Qed.
+
+Lemma FOP_split : forall A (R : A -> A -> Prop) l1 c1 l2 c2 l3,
+  ForallOrdPairs R (l1 ++ c1 :: l2 ++ c2 :: l3) -> R c1 c2.
+Proof.
+  intros A R. induction l1 as [|x r IH]; intros c1 l2 c2 l3 H; cbn [app] in H;
+    inversion H as [|? ? HF HR]; subst.
+  - rewrite Forall_forall in HF. apply HF. apply in_or_app. right. left. reflexivity.
+  - exact (IH c1 l2 c2 l3 HR).
+Qed.
+
+(* candidates of the table: different keys, hence different coordinates *)
+Lemma table_FOP : forall t, keys_distinct t -> keys_match t ->
+  ForallOrdPairs (fun a b => ~ same_cand a b) (tvalues t).
+Proof.
+  induction t as [|[k c] r IH]; intros HD HM; [constructor|].
+  change (tvalues ((k, c) :: r)) with (c :: tvalues r).
+  cbn [keys_distinct] in HD. destruct HD as [D1 D2]. constructor.
+  - apply Forall_forall. intros c' Hc' [Hloc _]. apply In_tvalues in Hc'. destruct Hc' as [k' Hk'].
+    pose proof (D1 k' c' Hk') as E.
+    assert (Ka : ckey c = k) by (apply HM; left; reflexivity).
+    assert (Kb : ckey c' = k') by (apply HM; right; exact Hk').
+    assert (Kk : k = k') by (rewrite <- Ka, <- Kb; unfold ckey; rewrite Hloc; reflexivity).
+    rewrite <- Kk in E. rewrite key_eqb_refl in E. discriminate E.
+  - apply IH; [exact D2|]. intros k0 c0 H0. apply HM. right. exact H0.
+Qed.
+
+(* the final singles: one per protocluster of an id-duplicate-free list, each for a protocluster that is not a
+   member of the table candidate with its coordinates *)
+Lemma singles_go_info : forall w existing l ss, singles_go w existing l = Ok ss -> ndg l ->
+  ForallOrdPairs (fun a b => ~ same_cand a b) ss /\
+  (forall c, In c ss -> exists p, In p l /\ cmem c = [p] /\
+     match tget (fstart (ploc p), fend (ploc p)) existing with
+     | Some ex => pmem p (cmem ex) | None => false end = false).
+Proof.
+  intros w existing. induction l as [|q r IH]; intros ss H Hnd; cbn [singles_go] in H.
+  - inversion H; subst. split; [constructor|intros c []].
+  - assert (Hr : ndg r) by (unfold ndg in *; cbn [map] in Hnd; inversion Hnd; assumption).
+    assert (Hq : ~ In (pid q) (map pid r)) by (unfold ndg in Hnd; cbn [map] in Hnd; inversion Hnd; assumption).
+    destruct (match tget (fstart (ploc q), fend (ploc q)) existing with
+              | Some ex => pmem q (cmem ex) | None => false end) eqn:Eskip.
+    + destruct (IH ss H Hr) as [A B]. split; [exact A|]. intros c Hc.
+      destruct (B c Hc) as [p [P1 P2]]. exists p. split; [right; exact P1|exact P2].
+    + destruct (mk_cand w K_SINGLE [q]) as [c0|k] eqn:Ec; cbn [bind] in H; [|discriminate H].
+      destruct (singles_go w existing r) as [cs|k] eqn:Er; cbn [bind] in H; [|discriminate H].
+      inversion H; subst ss; clear H.
+      assert (X : ForallOrdPairs (fun a b => ~ same_cand a b) cs /\
+                  (forall c, In c cs -> exists p, In p r /\ cmem c = [p] /\
+                     match tget (fstart (ploc p), fend (ploc p)) existing with
+                     | Some ex => pmem p (cmem ex) | None => false end = false)).
+      { first [exact (IH cs Er Hr)|exact (IH cs eq_refl Hr)]. }
+      destruct X as [A B]. destruct (mk_cand_members _ _ _ _ Ec) as [Mq _]. split.
+      * constructor; [|exact A]. apply Forall_forall. intros c' Hc' [_ Hsame].
+        destruct (B c' Hc') as [p [P1 [P2 _]]]. apply Hq.
+        assert (Hi : inS (pid q) (cmem c')).
+        { apply Hsame. rewrite Mq. unfold inS. cbn [map In]. left. reflexivity. }
+        rewrite P2 in Hi. unfold inS in Hi. cbn [map In] in Hi. destruct Hi as [Hi|[]].
+        rewrite <- Hi. apply in_map. exact P1.
+      * intros c [Hc|Hc].
+        -- subst c. exists q. split; [left; reflexivity|]. split; [exact Mq|exact Eskip].
+        -- destruct (B c Hc) as [p [P1 P2]]. exists p. split; [right; exact P1|exact P2].
+Qed.
+
+Lemma pkey_single : forall p q, ploc p = [q] -> (fstart (ploc p), fend (ploc p)) = span [p].
+Proof.
+  intros p q H. unfold span. cbn [map]. rewrite H.
+  unfold fstart, fend, lstrand, last_opt, lstart, lend.
+  cbn [map forallb rev app lmin lmax fold_left]. destruct (pst q =? -1); reflexivity.
+Qed.
+
+(* the returned list never holds two candidates with the same coordinates and the same membership *)
+Lemma formation_unique_linear : forall protos cands, linP protos -> formation_body protos None = Ok cands ->
+  exists pre, Permutation pre cands /\ ForallOrdPairs (fun a b => ~ same_cand a b) pre.
+Proof.
+  intros protos cands Hs E.
+  destruct (formation_body_shape protos cands Hs E) as [e3 [l [ss [Hc [[T1 [T2 [T3 T4]]] [Hsg [Hnd Hincl]]]]]]].
+  exists (tvalues e3 ++ ss). split.
+  - rewrite Hc. apply Permutation_app_tail. apply Permutation_sym. apply sort_by_perm.
+  - destruct (singles_go_info _ _ _ _ Hsg Hnd) as [A B].
+    apply FOP_app; [exact (table_FOP e3 T1 T2)|exact A|].
+    intros a b Ha Hb [Hloc Hmem].
+    destruct (B b Hb) as [p [Pl [Pm Pskip]]].
+    pose proof (proj1 (singles_go_good protos None e3 l ss Hsg Hincl b Hb)) as Gb.
+    pose proof (good_ckey protos b Hs Gb) as Kb. rewrite Pm in Kb.
+    destruct (Hs p (Hincl p Pl)) as [q [Hq _]].
+    rewrite <- (pkey_single p q Hq) in Kb.
+    assert (Kab : ckey a = ckey b) by (unfold ckey; rewrite Hloc; reflexivity).
+    apply In_tvalues in Ha. destruct Ha as [k Hk].
+    pose proof (T2 k a Hk) as Ka.
+    pose proof (tget_of_entry e3 k a T1 Hk) as Hget.
+    assert (Kk : k = (fstart (ploc p), fend (ploc p))) by (rewrite <- Ka, Kab; exact Kb).
+    rewrite <- Kk in Pskip. rewrite Hget in Pskip.
+    assert (Hi : inS (pid p) (cmem a)).
+    { apply Hmem. rewrite Pm. unfold inS. cbn [map In]. left. reflexivity. }
+    apply pmem_inS in Hi. rewrite Hi in Pskip. discriminate Pskip.
+Qed.
+
+Theorem unique_linear : forall protos out, create_candidates protos None = Ok out ->
+  (forall p, In p protos -> exists q, ploc p = [q] /\ ps q < pe q) ->
+  forall c1 c2 l1 l2 l3, out = l1 ++ c1 :: l2 ++ c2 :: l3 ->
+    ~ (cloc c1 = cloc c2 /\ (forall i, inS i (cmem c1) <-> inS i (cmem c2))).
+Proof.
+  intros protos out H Hs c1 c2 l1 l2 l3 Hout.
+  change (~ same_cand c1 c2).
+  assert (HF : ForallOrdPairs (fun a b => ~ same_cand a b) out).
+  { unfold create_candidates in H. destruct protos as [|p0 ps0]; [inversion H; constructor|].
+    destruct (formation_body (p0 :: ps0) None) as [cands|k] eqn:E; cbn [bind] in H; [|discriminate H].
+    destruct (negb (assigned_count cands =? zlen (p0 :: ps0))); [discriminate H|].
+    inversion H as [Ho]; clear H.
+    destruct (formation_unique_linear (p0 :: ps0) cands Hs E) as [pre [Hp HFp]].
+    apply (FOP_perm cand _ pre); [exact same_cand_sym| |exact HFp].
+    apply Permutation_trans with cands; [exact Hp|]. apply Permutation_sym. apply sort_by_perm. }
+  rewrite Hout in HF. exact (FOP_split cand _ l1 c1 l2 c2 l3 HF).
+Qed.
+
+(* ================================================================== audit *)
+End Order.
+
+(* ---------- witnesses of the findings about the meaning of the kinds (linear records) ---------- *)
+Definition kw_p (i s e cs ce : Z) (defs : list Z) : proto := mkProto i [mkPart s e 1] [mkPart cs ce 1] i defs.
+(* both members of a pair are members of one candidate of the list whose kind is in `kinds` *)
+Definition together (kinds : list Z) (x y : proto) (out : list cand) : bool :=
+  existsb (fun c => zmem (ckind c) kinds && pmem x (cmem c) && pmem y (cmem c)) out.
+Definition all_kinds : list Z := [K_SINGLE; K_INTERLEAVED; K_NEIGHBOURING; K_HYBRID].
+Definition kinds_ok (protos : list proto) (out : list cand) : bool :=
+  forallb (fun b => b) (kind_clauses protos None (map to_ocand out)).
+
+(* candidate_index_window, interleaved: hybrid {0,1} [0,1000) with joint core [100,900) sorts first, the short
+   hybrids {2,3} and {4,5} follow; protocluster 6 (core [890,950), overlapping the core of 0) has insertion
+   point 3, so only candidates[2:] = [{4,5}] is looked at *)
+Definition wi_protos : list proto :=
+  [kw_p 0 0 1000 100 900 [0]; kw_p 1 0 1000 100 120 [0]; kw_p 2 10 20 12 14 [1]; kw_p 3 10 20 11 15 [1];
+   kw_p 4 30 40 32 34 [2]; kw_p 5 30 40 31 35 [2]; kw_p 6 880 1100 890 950 []].
+Lemma window_interleaved_witness :
+  exists out rep,
+    create_candidates wi_protos None = Ok out /\ create_candidates_v true false wi_protos None = Ok rep /\
+    rel_I (kw_p 0 0 1000 100 900 [0]) (kw_p 6 880 1100 890 950 []) = true /\
+    together [K_INTERLEAVED; K_HYBRID] (kw_p 0 0 1000 100 900 [0]) (kw_p 6 880 1100 890 950 []) out = false /\
+    together [K_INTERLEAVED] (kw_p 0 0 1000 100 900 [0]) (kw_p 6 880 1100 890 950 []) rep = true /\
+    kinds_ok wi_protos out = false /\ kinds_ok wi_protos rep = true.
+Proof.
+  destruct (create_candidates wi_protos None) as [out|k] eqn:E; vm_compute in E; [|discriminate E].
+  destruct (create_candidates_v true false wi_protos None) as [rep|k] eqn:R; vm_compute in R; [|discriminate R].
+  inversion E as [E']. inversion R as [R']. eexists. eexists.
+  split; [reflexivity|]. split; [reflexivity|]. repeat split; vm_compute; reflexivity.
+Qed.
+
+(* candidate_index_window, neighbouring: protocluster 6 [50,60) lies inside hybrid {2,3} [6,100); its insertion
+   point is 3, so only candidates[2:] = [{4,5}] and candidates[0] = {0,1} are looked at: no candidate holds 6
+   together with 2 *)
+Definition wn_protos : list proto :=
+  [kw_p 0 0 5 1 3 [0]; kw_p 1 0 5 1 4 [0]; kw_p 2 6 100 30 32 [1]; kw_p 3 6 100 29 33 [1];
+   kw_p 4 10 20 12 14 [2]; kw_p 5 10 20 11 15 [2]; kw_p 6 50 60 52 55 []].
+Lemma window_neighbouring_witness :
+  exists out rep,
+    create_candidates wn_protos None = Ok out /\ create_candidates_v true false wn_protos None = Ok rep /\
+    rel_N (kw_p 2 6 100 30 32 [1]) (kw_p 6 50 60 52 55 []) = true /\
+    together all_kinds (kw_p 2 6 100 30 32 [1]) (kw_p 6 50 60 52 55 []) out = false /\
+    together all_kinds (kw_p 2 6 100 30 32 [1]) (kw_p 6 50 60 52 55 []) rep = true /\
+    kinds_ok wn_protos out = false /\ kinds_ok wn_protos rep = true.
+Proof.
+  destruct (create_candidates wn_protos None) as [out|k] eqn:E; vm_compute in E; [|discriminate E].
+  destruct (create_candidates_v true false wn_protos None) as [rep|k] eqn:R; vm_compute in R; [|discriminate R].
+  inversion E as [E']. inversion R as [R']. eexists. eexists.
+  split; [reflexivity|]. split; [reflexivity|]. repeat split; vm_compute; reflexivity.
+Qed.
+
+(* neighbouring_singles_not_linked: 4 [5,30) and 5 [25,50) overlap each other; 4 also overlaps hybrid {0,1}
+   [0,10) and 5 overlaps hybrid {2,3} [45,60), so both are dropped from `unassigned` and never compared: two
+   neighbouring candidates {0,1,4} [0,30) and {5,2,3} [25,60) that overlap each other *)
+Definition ws_protos : list proto :=
+  [kw_p 0 0 10 2 4 [0]; kw_p 1 0 10 1 5 [0]; kw_p 2 45 60 50 52 [1]; kw_p 3 45 60 49 53 [1];
+   kw_p 4 5 30 12 14 []; kw_p 5 25 50 31 35 []].
+Lemma singles_not_linked_witness :
+  exists out rep,
+    create_candidates ws_protos None = Ok out /\ create_candidates_v false true ws_protos None = Ok rep /\
+    rel_N (kw_p 4 5 30 12 14 []) (kw_p 5 25 50 31 35 []) = true /\
+    together all_kinds (kw_p 4 5 30 12 14 []) (kw_p 5 25 50 31 35 []) out = false /\
+    together [K_NEIGHBOURING] (kw_p 4 5 30 12 14 []) (kw_p 5 25 50 31 35 []) rep = true /\
+    map (fun c => (ckind c, map pid (cmem c))) (filter (fun c => ckind c =? K_NEIGHBOURING) out) = [(K_NEIGHBOURING, [0; 1; 4]); (K_NEIGHBOURING, [5; 2; 3])] /\
+    kinds_ok ws_protos out = false /\ kinds_ok ws_protos rep = true.
+Proof.
+  destruct (create_candidates ws_protos None) as [out|k] eqn:E; vm_compute in E; [|discriminate E].
+  destruct (create_candidates_v false true ws_protos None) as [rep|k] eqn:R; vm_compute in R; [|discriminate R].
+  inversion E as [E']. inversion R as [R']. eexists. eexists.
+  split; [reflexivity|]. split; [reflexivity|]. repeat split; vm_compute; reflexivity.
+Qed.
+
+(* ---------- end-to-end order independence is false when two protoclusters share coordinates AND core ---------- *)
+(* 2 and 3 have the same location [5,165) and the same core [20,160) (different products, different defining
+   genes): the hybrid groups {0,2} (gene 1) and {1,3} (gene 0) both span [5,165), build_candidates unites them and
+   only the members of the LATER group get an extra single; which group is later follows the supply order of 2, 3 *)
+Definition od_p (i s e cs ce prod : Z) (defs : list Z) : proto := mkProto i [mkPart s e 1] [mkPart cs ce 1] prod defs.
+Definition od_0 := od_p 0 105 165 105 160 2 [1].
+Definition od_1 := od_p 1 25 150 25 110 4 [0].
+Definition od_2 := od_p 2 5 165 20 160 7 [1].
+Definition od_3 := od_p 3 5 165 20 160 3 [0].
+Lemma order_dependent_witness :
+  Permutation [od_0; od_1; od_2; od_3] [od_0; od_1; od_3; od_2] /\
+  exists o1 o2, create_candidates [od_0; od_1; od_2; od_3] None = Ok o1 /\
+                create_candidates [od_0; od_1; od_3; od_2] None = Ok o2 /\
+    map (fun c => (ckind c, map pid (cmem c))) o1 = [(K_HYBRID, [3; 2; 1; 0]); (K_SINGLE, [1])] /\
+    map (fun c => (ckind c, map pid (cmem c))) o2 = [(K_HYBRID, [3; 2; 1; 0]); (K_SINGLE, [0])].
+Proof.
+  split; [apply perm_skip; apply perm_skip; apply perm_swap|].
+  destruct (create_candidates [od_0; od_1; od_2; od_3] None) as [o1|k] eqn:E1; vm_compute in E1; [|discriminate E1].
+  destruct (create_candidates [od_0; od_1; od_3; od_2] None) as [o2|k] eqn:E2; vm_compute in E2; [|discriminate E2].
+  inversion E1. inversion E2. eexists. eexists. split; [reflexivity|]. split; [reflexivity|].
+  split; vm_compute; reflexivity.
+Qed.
